@@ -1,16 +1,2098 @@
 (** * BookProofs — theorems about BookModel (property C19)
 
-    Part A: the book under concurrent construction
-      [book_schedule_independent], [book_positions_counts_schedule_free], [seq_build_is_a_schedule],
-      [book_edges_sound], [book_moves_legal_once], [edge_parent_depends_on_schedule] (Example),
-      [prefix_only], [game_steps_state_free], [book_case_ok_sound].
-    Part B: the three readers (see the header of Part B below). *)
+    Part B (first in this file, plain Coq lists): the three readers
+      [tokens_simple_render], [tokens_san_words], [tokens_san_render], [rav_loop_fuel_enough],
+      [rav_loop_strip], [pgn_clean_words], [tokens_pgn_render], [pgn_slices_render].
+    Part A (std++ finite maps): the book under concurrent construction
+      [schedule_counts_general], [book_schedule_independent], [book_positions_counts_schedule_free],
+      [game_steps_state_free], [seq_build_is_a_schedule], [parallel_equals_sequential],
+      [prefix_only], [book_edges_sound], [book_moves_legal_once],
+      [edge_parent_depends_on_schedule] (Example).
+    Part C: whole files and format independence
+      [file_games_simple], [file_games_san], [file_games_pgn], [formats_agree],
+      the findings [finding_*] (texts on which the readers disagree), [book_case_ok_sound].
 
-From Coq Require Import NArith List Bool Arith Lia Permutation ZifyN ZifyBool.
-From stdpp Require Import base option fin_maps nmap.
+    Section hypothesis (allowed by the task): [resolve_legal] in Section Legal only.
+
+    CLEAN TOKENS.  The reader theorems state more than "the right moves are found": the token list
+    handed to processSingleMove is EXACTLY the list of move strings that were rendered — no move
+    number, dot, NAG, bracket or blank stays glued to a move.  This matters for the current engine,
+    whose GetMoveFromUci/GetMoveFromSan match the whole token (a token such as "3.e4", "e4," or
+    "e2e4x" is unreadable and ends the line there).  The renderers produce "3.e4" only in the
+    form number-glued-to-move, which the number pass of processSanLine separates ([N_num]). *)
+
+From Coq Require Import NArith List Bool Arith Lia ZifyN ZifyBool Permutation.
 From FG Require Import BookModel.
 Import ListNotations.
 
+Local Open Scope N_scope.
+
+(* ========================================================================= *)
+(** * Part B — the three readers                                              *)
+(* ========================================================================= *)
+
+(** ** Generic facts about the replace-all scanner *)
+Section RaLemmas.
+  Variable m : str -> option nat.
+  Variable r : str.
+
+  Lemma ra_skip_len x : forall b, ra m r (length x) (x ++ b) = ra m r 0 b.
+  Proof. induction x as [|c x IH]; intros b; simpl; [reflexivity | apply IH]. Qed.
+
+  Lemma ra_hit c x b :
+    m ((c :: x) ++ b) = Some (length (c :: x)) -> ra m r 0 ((c :: x) ++ b) = r ++ ra m r 0 b.
+  Proof. intros H. simpl in *. rewrite H. now rewrite ra_skip_len. Qed.
+
+  (** no match starts inside a (with b behind it) *)
+  Definition nomatch_in (a b : str) : Prop :=
+    forall a1 c a2, a = a1 ++ c :: a2 -> m (c :: a2 ++ b) = None.
+
+  Lemma ra_pass a : forall b, nomatch_in a b -> ra m r 0 (a ++ b) = a ++ ra m r 0 b.
+  Proof.
+    induction a as [|c a IH]; intros b H; [reflexivity|].
+    simpl. rewrite (H [] c a eq_refl). f_equal. apply IH.
+    intros a1 c' a2 ->. apply (H (c :: a1) c' a2 eq_refl).
+  Qed.
+
+  Lemma nomatch_in_app a1 a2 b :
+    nomatch_in a1 (a2 ++ b) -> nomatch_in a2 b -> nomatch_in (a1 ++ a2) b.
+  Proof.
+    intros H1 H2 x c y Heq.
+    revert x Heq. induction a1 as [|d a1 IH]; intros x Heq.
+    - simpl in Heq. eapply H2; eauto.
+    - destruct x as [|d' x]; simpl in Heq; injection Heq as Hd Heq.
+      + subst c. rewrite <- Heq, <- app_assoc. apply (H1 [] d a1 eq_refl).
+      + subst d'. apply IH with (x := x); [|exact Heq].
+        intros z1 c' z2 Hz. subst a1. apply (H1 (d :: z1) c' z2 eq_refl).
+  Qed.
+
+  Lemma ra_id a : nomatch_in a [] -> ra m r 0 a = a.
+  Proof. intros H. rewrite <- (app_nil_r a) at 1. rewrite ra_pass by exact H. simpl. now rewrite app_nil_r. Qed.
+
+  Lemma has_match_false a : nomatch_in a [] -> has_match m a = false.
+  Proof.
+    induction a as [|c a IH]; intros H; [reflexivity|]. simpl.
+    pose proof (H [] c a eq_refl) as H0. rewrite app_nil_r in H0. rewrite H0.
+    apply IH. intros a1 c' a2 ->. apply (H (c :: a1) c' a2 eq_refl).
+  Qed.
+End RaLemmas.
+
+(** matchers with a fixed first character *)
+Definition starts_only (m : str -> option nat) (c0 : N) : Prop :=
+  forall c t, c <> c0 -> m (c :: t) = None.
+
+Lemma nomatch_no_start m c0 a b : starts_only m c0 -> ~ In c0 a -> nomatch_in m a b.
+Proof.
+  intros Hs Hn a1 c a2 ->. apply Hs. intros ->. apply Hn. apply in_or_app. right. now left.
+Qed.
+
+Lemma m_nag_starts : starts_only m_nag 36.
+Proof. intros c t Hc. simpl. destruct (N.eqb_spec c 36); [congruence | reflexivity]. Qed.
+Lemma m_delim_starts op cl : starts_only (m_delim op cl) op.
+Proof. intros c t Hc. simpl. destruct (N.eqb_spec c op); [congruence | reflexivity]. Qed.
+
+(** ** strings.TrimSpace *)
+
+(** trim_right computed from the left *)
+Fixpoint tr (s : str) : str :=
+  match s with
+  | [] => []
+  | c :: t => match tr t with
+              | [] => if is_space_trim c then [] else [c]
+              | t' => c :: t'
+              end
+  end.
+
+Lemma trim_left_snoc a c :
+  trim_left (a ++ [c]) =
+  match trim_left a with
+  | [] => if is_space_trim c then [] else [c]
+  | a' => a' ++ [c]
+  end.
+Proof.
+  induction a as [|d a IH]; simpl; [reflexivity|].
+  destruct (is_space_trim d); [exact IH | reflexivity].
+Qed.
+
+Lemma trim_right_tr s : trim_right s = tr s.
+Proof.
+  unfold trim_right. induction s as [|c s IH]; [reflexivity|].
+  simpl. rewrite trim_left_snoc. rewrite <- IH.
+  destruct (trim_left (rev s)) as [|d l]; simpl.
+  - destruct (is_space_trim c); reflexivity.
+  - rewrite rev_app_distr. simpl. destruct (rev l ++ [d]) eqn:E; [destruct (rev l); discriminate | reflexivity].
+Qed.
+
+Definition last_nonspace (s : str) : Prop := exists a c, s = a ++ [c] /\ is_space_trim c = false.
+
+Lemma tr_nonspace_end s : last_nonspace s -> tr s = s.
+Proof.
+  intros (a & c & -> & Hc). induction a as [|d a IH]; simpl.
+  - now rewrite Hc.
+  - rewrite IH. destruct (a ++ [c]) eqn:E; [destruct a; discriminate | reflexivity].
+Qed.
+
+Lemma tr_app_nonspace_end a b : last_nonspace a -> tr (a ++ b) = a ++ tr b.
+Proof.
+  intros (x & c & -> & Hc). induction x as [|d x IH]; simpl.
+  - destruct (tr b) as [|n l]; [now rewrite Hc | reflexivity].
+  - rewrite IH. destruct (tr b) as [|n l]; simpl.
+    + destruct ((x ++ [c]) ++ []) eqn:E; [destruct x; discriminate | reflexivity].
+    + destruct ((x ++ [c]) ++ n :: l) eqn:E; [destruct x; discriminate | reflexivity].
+Qed.
+
+Lemma tr_spaces n : tr (repeat 32 n) = [].
+Proof. induction n as [|n IH]; simpl; [reflexivity | now rewrite IH]. Qed.
+
+Lemma trim_left_nonspace c t : is_space_trim c = false -> trim_left (c :: t) = c :: t.
+Proof. intros H. simpl. now rewrite H. Qed.
+
+Lemma trim_space_id c a d :
+  is_space_trim c = false -> is_space_trim d = false -> trim_space (c :: a ++ [d]) = c :: a ++ [d].
+Proof.
+  intros Hc Hd. unfold trim_space. rewrite trim_left_nonspace by exact Hc. rewrite trim_right_tr.
+  apply tr_nonspace_end. exists (c :: a), d. auto.
+Qed.
+
+Lemma trim_space_id1 c : is_space_trim c = false -> trim_space [c] = [c].
+Proof. intros Hc. unfold trim_space. rewrite trim_left_nonspace by exact Hc. rewrite trim_right_tr. simpl. now rewrite Hc. Qed.
+
+(** a string whose first and last characters are not white space is not changed *)
+Lemma trim_space_id_gen s c t :
+  s = c :: t -> is_space_trim c = false -> last_nonspace s -> trim_space s = s.
+Proof.
+  intros -> Hc Hl. unfold trim_space. rewrite trim_left_nonspace by exact Hc. rewrite trim_right_tr.
+  now apply tr_nonspace_end.
+Qed.
+
+(* ========================================================================= *)
+(** ** Simple format *)
+
+Lemma is_file_not_rank c : is_file c = true -> is_rank c = false.
+Proof. unfold is_file, is_rank, in_range. lia. Qed.
+Lemma is_file_not_space c : is_file c = true -> is_space_trim c = false.
+Proof. unfold is_file, is_space_trim, in_range. lia. Qed.
+Lemma is_rank_not_space c : is_rank c = true -> is_space_trim c = false.
+Proof. unfold is_rank, is_space_trim, in_range. lia. Qed.
+Lemma is_promo_not_space c : is_promo_letter c = true -> is_space_trim c = false.
+Proof. unfold is_promo_letter, is_space_trim, in_range. lia. Qed.
+
+Definition stail (rest : list (bool * str)) : str :=
+  concat (map (fun su : bool * str => (if fst su then [32] else []) ++ snd su) rest).
+
+Lemma stail_cons sp u rest : stail ((sp, u) :: rest) = (if sp then [32] else []) ++ u ++ stail rest.
+Proof. unfold stail. simpl. now rewrite <- app_assoc. Qed.
+
+(** what can follow a move in a rendered line: nothing, a blank, or the next move *)
+Inductive follow : str -> Prop :=
+| fo_nil : follow []
+| fo_sp t : follow (32 :: t)
+| fo_mv a b t : is_file a = true -> is_rank b = true -> follow (a :: b :: t).
+
+Lemma stail_follow rest : Forall (fun su => uci_ok (snd su) = true) rest -> follow (stail rest).
+Proof.
+  intros H. destruct rest as [|[sp u] rest]; [constructor|].
+  apply Forall_inv in H. simpl in H. rewrite stail_cons.
+  destruct sp; simpl; [constructor|].
+  destruct u as [|a [|b [|c [|d u]]]]; try discriminate.
+  unfold is_move4 in H.
+  assert (is_file a = true /\ is_rank b = true) as [Ha Hb].
+  { destruct u as [|p [|]]; try discriminate; simpl in H; unfold is_move4 in H; split; lia. }
+  now constructor.
+Qed.
+
+Lemma simple_promo_follow R : follow R -> simple_promo R = [].
+Proof.
+  intros [|t|a b t Ha Hb]; [reflexivity|reflexivity|].
+  unfold simple_promo.
+  assert (E1 : (a =? 110) || (a =? 114) || (a =? 113) || (a =? 78) || (a =? 82) || (a =? 81) = false)
+    by (unfold is_file, in_range in Ha; lia).
+  rewrite E1. rewrite Hb. simpl. now rewrite andb_false_r.
+Qed.
+
+Lemma simple_promo_letter p R : is_promo_letter p = true -> follow R -> simple_promo (p :: R) = [p].
+Proof.
+  intros Hp HR. unfold simple_promo.
+  destruct ((p =? 110) || (p =? 114) || (p =? 113) || (p =? 78) || (p =? 82) || (p =? 81)) eqn:E1; [reflexivity|].
+  assert (E2 : (p =? 98) || (p =? 66) = true) by (unfold is_promo_letter in Hp; lia).
+  rewrite E2. simpl.
+  destruct HR as [|t|a b t Ha Hb]; [reflexivity | reflexivity |].
+  now rewrite (is_file_not_rank a Ha).
+Qed.
+
+(** scanning over the promotion letter / a blank finds nothing *)
+Lemma simple_scan_skip1 c R :
+  (is_file c = false \/ follow R) -> (is_file c = true -> follow R) ->
+  simple_scan 0 (c :: R) = simple_scan 0 R.
+Proof.
+  intros _ H. simpl.
+  destruct R as [|b [|c2 [|d R]]]; try reflexivity.
+  destruct (is_move4 c b c2 d) eqn:E; [|reflexivity].
+  exfalso. unfold is_move4 in E.
+  assert (Hc : is_file c = true) by (destruct (is_file c); [reflexivity | discriminate]).
+  specialize (H Hc). inversion H as [| |a' b' t' Ha' Hb']; subst.
+  - unfold is_rank, in_range in E. simpl in E. rewrite Hc in E. discriminate.
+  - rewrite (is_file_not_rank _ Ha') in E. rewrite Hc in E. discriminate.
+Qed.
+
+Lemma simple_scan_move u R :
+  uci_ok u = true -> follow R -> simple_scan 0 (u ++ R) = u :: simple_scan 0 R.
+Proof.
+  intros Hu HR.
+  destruct u as [|a [|b [|c [|d [|p [|]]]]]]; try discriminate; simpl in Hu.
+  - (* four characters *)
+    change ([a; b; c; d] ++ R) with (a :: b :: c :: d :: R).
+    cbn [simple_scan]. rewrite Hu. rewrite (simple_promo_follow R HR). reflexivity.
+  - apply andb_prop in Hu as [Hm Hp].
+    change ([a; b; c; d; p] ++ R) with (a :: b :: c :: d :: p :: R).
+    cbn [simple_scan]. rewrite Hm. rewrite (simple_promo_letter p R Hp HR). f_equal.
+    apply simple_scan_skip1; auto.
+Qed.
+
+Lemma simple_scan_stail rest :
+  Forall (fun su => uci_ok (snd su) = true) rest ->
+  simple_scan 0 (stail rest) = map snd rest.
+Proof.
+  induction rest as [|[sp u] rest IH]; intros H; [reflexivity|].
+  pose proof (Forall_inv H) as Hu. apply Forall_inv_tail in H. simpl in Hu.
+  rewrite stail_cons.
+  simpl map.
+  assert (Hm : simple_scan 0 (u ++ stail rest) = u :: map snd rest).
+  { rewrite simple_scan_move; [now rewrite IH | exact Hu | now apply stail_follow]. }
+  destruct sp; [|exact Hm].
+  change ([32] ++ u ++ stail rest) with (32 :: (u ++ stail rest)).
+  rewrite simple_scan_skip1; [exact Hm | left; reflexivity | discriminate].
+Qed.
+
+Lemma uci_ok_ends u : uci_ok u = true ->
+  (exists c t, u = c :: t /\ is_space_trim c = false) /\ last_nonspace u.
+Proof.
+  intros Hu. destruct u as [|a [|b [|c [|d [|p [|]]]]]]; try discriminate; simpl in Hu.
+  - unfold is_move4 in Hu. split; [exists a, [b;c;d]; split; [reflexivity|apply is_file_not_space; lia]|].
+    exists [a;b;c], d. split; [reflexivity | apply is_rank_not_space; lia].
+  - apply andb_prop in Hu as [Hm Hp]. unfold is_move4 in Hm.
+    split; [exists a, [b;c;d;p]; split; [reflexivity|apply is_file_not_space; lia]|].
+    exists [a;b;c;d], p. split; [reflexivity | now apply is_promo_not_space].
+Qed.
+
+Lemma last_nonspace_app a b : last_nonspace b -> last_nonspace (a ++ b).
+Proof. intros (x & c & -> & Hc). exists (a ++ x), c. now rewrite app_assoc. Qed.
+
+Lemma stail_last rest :
+  rest <> [] -> Forall (fun su => uci_ok (snd su) = true) rest -> last_nonspace (stail rest).
+Proof.
+  induction rest as [|[sp u] rest IH]; intros Hne H; [congruence|].
+  pose proof (Forall_inv H) as Hu. apply Forall_inv_tail in H. simpl in Hu.
+  rewrite stail_cons.
+  apply last_nonspace_app.
+  destruct rest as [|x rest].
+  - unfold stail. simpl. rewrite app_nil_r. now apply uci_ok_ends.
+  - apply last_nonspace_app. apply IH; [discriminate | exact H].
+Qed.
+
+(** C19 / Simple reader: a line of coordinate moves, separated by blanks or not, with promotion
+    letters, is read as exactly these moves *)
+Theorem tokens_simple_render u rest :
+  uci_ok u = true -> Forall (fun su => uci_ok (snd su) = true) rest ->
+  tokens_simple (render_simple u rest) = Some (u :: map snd rest).
+Proof.
+  intros Hu Hr. unfold tokens_simple, render_simple. fold (stail rest).
+  destruct (uci_ok_ends u Hu) as ((c & t & -> & Hc) & Hl).
+  assert (Htrim : trim_space ((c :: t) ++ stail rest) = (c :: t) ++ stail rest).
+  { eapply trim_space_id_gen; [reflexivity | exact Hc |].
+    destruct rest as [|x rest]; [unfold stail; simpl; now rewrite app_nil_r|].
+    apply last_nonspace_app. apply stail_last; [discriminate | exact Hr]. }
+  rewrite Htrim. rewrite simple_scan_move; [|exact Hu | now apply stail_follow].
+  now rewrite simple_scan_stail.
+Qed.
+(* ========================================================================= *)
+(** ** processSanLine on a cleaned line *)
+
+Definition spaced (Z : str) : Prop := Z = [] \/ exists Z', Z = 32 :: Z'.
+Definition tokstr (s : str) : Prop :=
+  s <> [] /\ forall c, In c s -> is_space_re c = false /\ is_space_trim c = false.
+
+(** *** span *)
+Lemma span_app p a r :
+  forallb p a = true -> (r = [] \/ exists c r', r = c :: r' /\ p c = false) ->
+  span p (a ++ r) = (length a, r).
+Proof.
+  intros Ha Hr. induction a as [|c a IH]; simpl in *.
+  - destruct Hr as [->|(c & r' & -> & Hc)]; simpl; [reflexivity | now rewrite Hc].
+  - apply andb_prop in Ha as [Hc Ha]. rewrite Hc, (IH Ha). reflexivity.
+Qed.
+
+Lemma span_spec p s :
+  exists a r, s = a ++ r /\ span p s = (length a, r) /\ forallb p a = true /\
+              (r = [] \/ exists c r', r = c :: r' /\ p c = false).
+Proof.
+  induction s as [|c s (a & r & -> & Hs & Ha & Hr)].
+  - exists [], []. simpl. auto.
+  - simpl. destruct (p c) eqn:Hc.
+    + exists (c :: a), r. rewrite Hs. simpl. rewrite Hc, Ha. auto.
+    + exists [], (c :: a ++ r). simpl. repeat split; auto. right. eauto.
+Qed.
+
+(** *** the move-number pattern *)
+Lemma m_num_some x n : m_num x = Some n ->
+  exists ds rest, x = ds ++ 46 :: rest /\ ds <> [] /\ forallb is_digit ds = true.
+Proof.
+  unfold m_num. destruct (span_spec is_digit x) as (a & r & -> & Hs & Ha & Hr). rewrite Hs.
+  destruct a as [|d a]; [discriminate|]. simpl length. cbn [Nat.eqb].
+  destruct r as [|c r]; [simpl; discriminate|].
+  cbn [span]. destruct (N.eqb_spec 46 c) as [<-|Hne].
+  - intros _. exists (d :: a), r. repeat split; auto; discriminate.
+  - cbn. discriminate.
+Qed.
+
+Lemma app_eq_split (a Y ds rest : str) :
+  a ++ Y = ds ++ 46 :: rest -> ~ In 46 a -> ~ In 46 ds ->
+  exists ds', ds = a ++ ds' /\ Y = ds' ++ 46 :: rest.
+Proof.
+  revert ds. induction a as [|c a IH]; intros ds Heq Ha Hds.
+  - exists ds. auto.
+  - destruct ds as [|d ds]; simpl in Heq; injection Heq as Hc Heq.
+    + exfalso. apply Ha. left. exact Hc.
+    + subst d. destruct (IH ds Heq) as (ds' & -> & ->).
+      * intros H. apply Ha. now right.
+      * intros H. apply Hds. now right.
+      * exists ds'. auto.
+Qed.
+
+Lemma digits_no_dot ds : forallb is_digit ds = true -> ~ In 46 ds.
+Proof.
+  intros H Hin. rewrite forallb_forall in H. specialize (H 46 Hin). discriminate.
+Qed.
+
+Definition num_safe (Y : str) : Prop :=
+  Y = [] \/ exists c Y', Y = c :: Y' /\ is_digit c = false /\ c <> 46.
+
+Lemma m_num_none a Y : ~ In 46 a -> num_safe Y -> m_num (a ++ Y) = None.
+Proof.
+  intros Ha HY. destruct (m_num (a ++ Y)) as [n|] eqn:E; [|reflexivity]. exfalso.
+  destruct (m_num_some _ _ E) as (ds & rest & Heq & Hne & Hds).
+  destruct (app_eq_split _ _ _ _ Heq Ha (digits_no_dot _ Hds)) as (ds' & -> & HYeq).
+  destruct HY as [->|(c & Y' & -> & Hc & Hc46)].
+  - destruct ds'; discriminate.
+  - destruct ds' as [|d ds']; simpl in HYeq; injection HYeq as -> _; [congruence|].
+    rewrite forallb_app in Hds. simpl in Hds. rewrite Hc in Hds. lia.
+Qed.
+
+Lemma nomatch_num s Y : ~ In 46 s -> num_safe Y -> nomatch_in m_num s Y.
+Proof.
+  intros Hs HY a1 c a2 ->. change (c :: a2 ++ Y) with ((c :: a2) ++ Y). apply m_num_none; [|exact HY].
+  intros H. apply Hs. apply in_or_app. now right.
+Qed.
+
+Lemma spaced_num_safe Y : spaced Y -> num_safe Y.
+Proof. intros [->|(Z & ->)]; [now left | right; exists 32, Z; repeat split; auto; discriminate]. Qed.
+
+Lemma span_dots nd X :
+  (X = [] \/ exists c X', X = c :: X' /\ c <> 46) -> span (N.eqb 46) (repeat 46 nd ++ X) = (nd, X).
+Proof.
+  intros HX. rewrite span_app.
+  - now rewrite repeat_length.
+  - induction nd; simpl; auto.
+  - destruct HX as [->|(c & X' & -> & Hc)]; [now left | right; exists c, X'; split; auto].
+    destruct (N.eqb_spec 46 c); congruence.
+Qed.
+
+Lemma skipn_repeat_app {A} (x : A) n l : skipn n (repeat x n ++ l) = l.
+Proof. induction n; simpl; auto. Qed.
+
+(** the pattern matches a move number exactly, plus one following blank *)
+Lemma m_num_hit ds nd X :
+  digits_ok ds 1000 = true -> (1 <= nd <= 3)%nat ->
+  (X = [] \/ exists c X', X = c :: X' /\ c <> 46) ->
+  m_num (ds ++ repeat 46 nd ++ X) =
+  Some (length ds + nd + match X with c :: _ => if (c =? 32)%N then 1 else 0 | [] => 0 end)%nat.
+Proof.
+  intros Hds Hnd HX. unfold digits_ok in Hds. destruct ds as [|d ds]; [discriminate|].
+  apply andb_prop in Hds as [Hds _].
+  unfold m_num. rewrite span_app; [|exact Hds|].
+  2:{ right. destruct nd as [|nd]; [lia|]. exists 46, (repeat 46 nd ++ X). auto. }
+  simpl length. cbn [Nat.eqb]. rewrite (span_dots nd X HX). cbn [fst].
+  replace (Nat.min 3 nd) with nd by lia.
+  destruct nd as [|nd]; [lia|]. cbn [Nat.eqb].
+  rewrite skipn_repeat_app. reflexivity.
+Qed.
+
+Definition N_ := ra m_num [] 0.
+Definition R_ := ra m_res [] 0.
+
+Lemma N_space Z : N_ (32 :: Z) = 32 :: N_ Z.
+Proof. reflexivity. Qed.
+Lemma N_spaces n Z : N_ (repeat 32 n ++ Z) = repeat 32 n ++ N_ Z.
+Proof. induction n as [|n IH]; [reflexivity|]. simpl repeat. simpl app. now rewrite N_space, IH. Qed.
+
+Lemma N_pass s Y : ~ In 46 s -> num_safe Y -> N_ (s ++ Y) = s ++ N_ Y.
+Proof. intros Hs HY. unfold N_. apply ra_pass. now apply nomatch_num. Qed.
+
+Lemma N_num ds nd X :
+  digits_ok ds 1000 = true -> (1 <= nd <= 3)%nat ->
+  (X = [] \/ exists c X', X = c :: X' /\ c <> 46) ->
+  N_ (ds ++ repeat 46 nd ++ X) = N_ (match X with c :: X' => if c =? 32 then X' else X | [] => [] end).
+Proof.
+  intros Hds Hnd HX. pose proof (m_num_hit ds nd X Hds Hnd HX) as Hm.
+  assert (Hne : exists d ds', ds = d :: ds') by (destruct ds; [discriminate | eauto]).
+  destruct Hne as (d & ds' & ->).
+  destruct X as [|c X'].
+  - rewrite app_nil_r in *. simpl in Hm.
+    change ((d :: ds') ++ repeat 46 nd) with (d :: (ds' ++ repeat 46 nd)) in *.
+    pose proof (ra_hit m_num [] d (ds' ++ repeat 46 nd) []) as H. rewrite !app_nil_r in H.
+    unfold N_. rewrite H; [reflexivity|]. rewrite Hm. f_equal. simpl. rewrite !app_length, repeat_length. lia.
+  - destruct (N.eqb_spec c 32) as [->|Hc].
+    + replace ((d :: ds') ++ repeat 46 nd ++ 32 :: X') with ((d :: (ds' ++ repeat 46 nd ++ [32])) ++ X')
+        by (simpl; now rewrite <- !app_assoc).
+      unfold N_. rewrite ra_hit; [reflexivity|].
+      replace ((d :: ds' ++ repeat 46 nd ++ [32]) ++ X') with ((d :: ds') ++ repeat 46 nd ++ 32 :: X')
+        by (simpl; now rewrite <- !app_assoc).
+      rewrite Hm. f_equal. simpl. rewrite !app_length, repeat_length. simpl. lia.
+    + replace ((d :: ds') ++ repeat 46 nd ++ c :: X') with ((d :: (ds' ++ repeat 46 nd)) ++ c :: X')
+        by (simpl; now rewrite <- !app_assoc).
+      unfold N_. rewrite ra_hit; [reflexivity|].
+      replace ((d :: ds' ++ repeat 46 nd) ++ c :: X') with ((d :: ds') ++ repeat 46 nd ++ c :: X')
+        by (simpl; now rewrite <- !app_assoc).
+      rewrite Hm. f_equal. simpl. rewrite !app_length, repeat_length. lia.
+Qed.
+
+(** *** the result pattern *)
+Lemma m_res_some x n : m_res x = Some n ->
+  (exists t, x = 48 :: t) \/ (exists c t, x = 49 :: c :: t /\ (c = 45 \/ c = 47)).
+Proof.
+  unfold m_res. destruct x as [|c1 t]; [discriminate|].
+  unfold m_res_grp at 1.
+  destruct (N.eqb_spec c1 49) as [->|H49].
+  - destruct t as [|c2 [|c3 t]].
+    + simpl. discriminate.
+    + simpl. destruct (N.eqb_spec c2 45) as [->|]; [|discriminate]. intros _. right. exists 45, []. auto.
+    + destruct ((c2 =? 47) && (c3 =? 50)) eqn:E.
+      * intros _. right. exists c2, (c3 :: t). split; [reflexivity|]. right. lia.
+      * cbn [skipn]. destruct (N.eqb_spec c2 45) as [->|]; [|discriminate]. intros _. right. exists 45, (c3 :: t). auto.
+  - destruct (N.eqb_spec c1 48) as [->|H48]; [|discriminate]. intros _. left. eauto.
+Qed.
+
+Lemma san_char_facts c : san_char c = true ->
+  c <> 46 /\ c <> 48 /\ c <> 47 /\ c <> 32 /\ is_space_re c = false /\ is_space_trim c = false /\
+  c <> 36 /\ c <> 123 /\ c <> 125 /\ c <> 60 /\ c <> 62 /\ c <> 40 /\ c <> 41 /\ c <> 59 /\ c <> 34 /\ c <> 37 /\ c <> 42.
+Proof.
+  unfold san_char, is_space_re, is_space_trim, is_file, is_rank, in_range. intros H. repeat split; lia.
+Qed.
+
+Lemma dash_ok_inside a1 : forall p c a2, dash_ok p (a1 ++ c :: 45 :: a2) = true -> c = 79.
+Proof.
+  induction a1 as [|d a1 IH]; intros p c a2 H; simpl in H.
+  - apply andb_prop in H as [_ H]. apply andb_prop in H as [H _]. lia.
+  - apply andb_prop in H as [_ H]. eapply IH; eauto.
+Qed.
+
+Lemma san_ok_chars s : san_ok s = true -> s <> [] /\ forallb san_char s = true /\ dash_ok 0 s = true.
+Proof. unfold san_ok. destruct s; [discriminate|]. intros H. apply andb_prop in H as [H1 H2]. repeat split; auto; discriminate. Qed.
+
+Lemma nomatch_res_tok s Y : san_ok s = true -> spaced Y -> nomatch_in m_res s Y.
+Proof.
+  intros Hs HY a1 c a2 Heq. destruct (san_ok_chars s Hs) as (_ & Hch & Hd).
+  destruct (m_res (c :: a2 ++ Y)) as [n|] eqn:E; [|reflexivity]. exfalso.
+  rewrite forallb_forall in Hch.
+  assert (Hc : san_char c = true) by (apply Hch; subst s; apply in_or_app; right; now left).
+  destruct (m_res_some _ _ E) as [(t & Ht)|(c2 & t & Ht & Hc2)].
+  - injection Ht as -> _. apply san_char_facts in Hc. tauto.
+  - injection Ht as -> Ht.
+    destruct a2 as [|d a2].
+    + simpl in Ht. destruct HY as [->|(Z & ->)]; [discriminate|]. injection Ht as <- _. lia.
+    + simpl in Ht. injection Ht as -> _.
+      assert (Hd2 : san_char c2 = true) by (apply Hch; subst s; apply in_or_app; right; right; now left).
+      destruct Hc2 as [->| ->]; [|apply san_char_facts in Hd2; tauto].
+      subst s. apply dash_ok_inside in Hd. discriminate.
+Qed.
+
+Lemma R_space Z : R_ (32 :: Z) = 32 :: R_ Z.
+Proof. reflexivity. Qed.
+
+Lemma R_tok s Y : san_ok s = true -> spaced Y -> R_ (s ++ Y) = s ++ R_ Y.
+Proof. intros Hs HY. unfold R_. apply ra_pass. now apply nomatch_res_tok. Qed.
+
+Lemma is_result_cases r : is_result r = true -> r = s_10 \/ r = s_01 \/ r = s_draw.
+Proof.
+  assert (Heq : forall a b, str_eqb a b = true -> a = b).
+  { induction a as [|x a IH]; destruct b as [|y b]; simpl; try discriminate; auto.
+    intros H. apply andb_prop in H as [H1 H2]. f_equal; [lia | auto]. }
+  unfold is_result. intros H.
+  destruct (str_eqb r s_10) eqn:E1; [left; auto|].
+  destruct (str_eqb r s_01) eqn:E2; [right; left; auto|].
+  right; right. apply Heq. exact H.
+Qed.
+
+Lemma R_result r Y : is_result r = true -> spaced Y -> R_ (r ++ Y) = R_ Y.
+Proof.
+  intros Hr HY. apply is_result_cases in Hr.
+  destruct HY as [->|([|c Z] & ->)]; destruct Hr as [->|[->| ->]]; reflexivity.
+Qed.
+
+Lemma result_no_dot r : is_result r = true -> ~ In 46 r.
+Proof.
+  intros Hr. apply is_result_cases in Hr. destruct Hr as [->|[->| ->]]; simpl; intros H;
+    repeat (destruct H as [H|H]; [discriminate|]); exact H.
+Qed.
+
+(** *** shape of a line after the number pass / after the result pass *)
+Inductive nsh : str -> list str -> Prop :=
+| nsh_nil : nsh [] []
+| nsh_sp Z ts : nsh Z ts -> nsh (32 :: Z) ts
+| nsh_tok s Z ts : san_ok s = true -> spaced Z -> nsh Z ts -> nsh (s ++ Z) (s :: ts)
+| nsh_res r Z ts : is_result r = true -> spaced Z -> nsh Z ts -> nsh (r ++ Z) ts.
+
+Inductive shaped : str -> list str -> Prop :=
+| sh_nil : shaped [] []
+| sh_sp Z ts : shaped Z ts -> shaped (32 :: Z) ts
+| sh_tok s Z ts : tokstr s -> spaced Z -> shaped Z ts -> shaped (s ++ Z) (s :: ts).
+
+Lemma san_ok_tokstr s : san_ok s = true -> tokstr s.
+Proof.
+  intros Hs. destruct (san_ok_chars s Hs) as (Hne & Hch & _). split; [exact Hne|].
+  intros c Hc. rewrite forallb_forall in Hch. apply Hch, san_char_facts in Hc. tauto.
+Qed.
+
+Lemma R_spaced Z : spaced Z -> spaced (R_ Z).
+Proof. intros [->|(Z' & ->)]; [now left | right; rewrite R_space; eauto]. Qed.
+
+Lemma R_nsh Z ts : nsh Z ts -> shaped (R_ Z) ts.
+Proof.
+  induction 1 as [|Z ts _ IH|s Z ts Hs HZ _ IH|r Z ts Hr HZ _ IH].
+  - constructor.
+  - rewrite R_space. now constructor.
+  - rewrite R_tok by assumption. constructor; [now apply san_ok_tokstr | now apply R_spaced | exact IH].
+  - now rewrite R_result.
+Qed.
+
+(** *** regexp.Split on a shaped line *)
+Lemma split_tok s : forall cur inws rest,
+  (forall c, In c s -> is_space_re c = false) -> s <> [] ->
+  split_ws cur inws (s ++ rest) = split_ws (rev s ++ cur) false rest.
+Proof.
+  induction s as [|c s IH]; intros cur inws rest Hs Hne; [congruence|].
+  simpl. rewrite (Hs c) by now left.
+  destruct s as [|d s].
+  - reflexivity.
+  - rewrite IH; [|intros x Hx; apply Hs; now right | discriminate].
+    simpl. now rewrite <- !app_assoc.
+Qed.
+
+Lemma tr_cons_space Z : tr (32 :: Z) = match tr Z with [] => [] | t => 32 :: t end.
+Proof. reflexivity. Qed.
+
+Lemma tokstr_last s : tokstr s -> last_nonspace s.
+Proof.
+  intros [Hne Hs]. destruct (exists_last Hne) as (a & c & ->). exists a, c. split; [reflexivity|].
+  apply Hs. apply in_or_app. right. now left.
+Qed.
+
+Lemma shaped_tr_nil Z ts : shaped Z ts -> tr Z = [] -> ts = [].
+Proof.
+  induction 1 as [|Z ts _ IH|s Z ts Hs HZ _ IH]; intros Ht; [reflexivity| |].
+  - rewrite tr_cons_space in Ht. destruct (tr Z); [auto | discriminate].
+  - rewrite (tr_app_nonspace_end s Z (tokstr_last s Hs)) in Ht.
+    destruct Hs as [Hne _]. destruct s; [congruence | discriminate].
+Qed.
+
+Lemma split_shaped_aux Z ts : shaped Z ts ->
+  (forall s, tokstr s -> spaced Z -> split_ws (rev s) false (tr Z) = s :: ts) /\
+  (tr Z <> [] -> split_ws [] true (tr Z) = ts).
+Proof.
+  induction 1 as [|Z ts Hsh [IH1 IH2]|s Z ts Hs HZ Hsh [IH1 IH2]].
+  - split; [|simpl; congruence]. intros s _ _. simpl. now rewrite rev_involutive.
+  - split.
+    + intros s Hs _. rewrite tr_cons_space. destruct (tr Z) as [|c t] eqn:E.
+      * rewrite (shaped_tr_nil _ _ Hsh E). simpl. now rewrite rev_involutive.
+      * cbn [split_ws]. cbn [is_space_re N.eqb orb]. simpl. rewrite rev_involutive. f_equal.
+        apply IH2. discriminate.
+    + rewrite tr_cons_space. destruct (tr Z) as [|c t] eqn:E; [congruence|]. intros _.
+      cbn [split_ws]. simpl. apply IH2. discriminate.
+  - pose proof (tr_app_nonspace_end s Z (tokstr_last s Hs)) as Htr.
+    split.
+    + intros s' _ [Hc|(Z' & Hc)].
+      * destruct Hs as [Hne _]. destruct s; [congruence | discriminate].
+      * exfalso. destruct Hs as [Hne Hs]. destruct s as [|c s]; [congruence|].
+        injection Hc as -> _. specialize (Hs 32 (or_introl eq_refl)). destruct Hs; discriminate.
+    + intros _. rewrite Htr. destruct Hs as [Hne Hs0].
+      rewrite split_tok; [|intros c Hc; now apply Hs0 | exact Hne].
+      rewrite app_nil_r. apply IH1; [split; assumption | exact HZ].
+Qed.
+
+Lemma trim_left_shaped Z ts : shaped Z ts -> ts <> [] ->
+  exists s Z1 ts1, trim_left Z = s ++ Z1 /\ tokstr s /\ spaced Z1 /\ shaped Z1 ts1 /\ ts = s :: ts1.
+Proof.
+  induction 1 as [|Z ts _ IH|s Z ts Hs HZ Hsh _]; intros Hne; [congruence| |].
+  - simpl. apply IH, Hne.
+  - exists s, Z, ts. split; [|split; [exact Hs|split; [exact HZ|split; [exact Hsh|reflexivity]]]].
+    destruct Hs as [Hn Hs]. destruct s as [|c s]; [congruence|].
+    simpl. destruct (Hs c (or_introl eq_refl)) as [_ ->]. reflexivity.
+Qed.
+
+Lemma split_shaped Z ts : shaped Z ts -> ts <> [] -> split_ws [] false (trim_space Z) = ts.
+Proof.
+  intros Hsh Hne. destruct (trim_left_shaped Z ts Hsh Hne) as (s & Z1 & ts1 & Htl & Hs & HZ1 & Hsh1 & ->).
+  unfold trim_space. rewrite Htl, trim_right_tr. rewrite (tr_app_nonspace_end s Z1 (tokstr_last s Hs)).
+  destruct Hs as [Hn Hs0]. rewrite split_tok; [|intros c Hc; now apply Hs0 | exact Hn].
+  rewrite app_nil_r. apply (split_shaped_aux Z1 ts1 Hsh1); [split; assumption | exact HZ1].
+Qed.
+(** *** word lists at the SAN stage: moves, move numbers, blanks, a result *)
+Definition sword_ok (w : word) : bool :=
+  match w with
+  | WTok s => san_ok s
+  | WNum ds nd => digits_ok ds 1000 && (1 <=? nd)%nat && (nd <=? 3)%nat
+  | WBlank _ => true
+  | WResult r => is_result r
+  | _ => false
+  end.
+Definition sglue_ok (prev : word) (gw : gword) : bool :=
+  negb (fst gw) || match prev, snd gw with WNum _ _, WTok _ => true | _, _ => false end.
+Fixpoint sstage_ok (prev : word) (ws : list gword) : bool :=
+  match ws with
+  | [] => true
+  | gw :: t => sword_ok (snd gw) && sglue_ok prev gw && sstage_ok (snd gw) t
+  end.
+Fixpoint stoks (ws : list gword) : list str :=
+  match ws with
+  | [] => []
+  | (_, WTok s) :: t => s :: stoks t
+  | _ :: t => stoks t
+  end.
+
+Lemma rline_cons g w t : rline ((g, w) :: t) = sep g ++ rw w ++ rline t.
+Proof. unfold rline. simpl. now rewrite <- app_assoc. Qed.
+Lemma rline_app a b : rline (a ++ b) = rline a ++ rline b.
+Proof. unfold rline. now rewrite map_app, concat_app. Qed.
+
+Lemma nsh_spaces n Z ts : nsh Z ts -> nsh (repeat 32 n ++ Z) ts.
+Proof. intros H. induction n; simpl; [exact H | now constructor]. Qed.
+
+Lemma san_ok_no_dot s : san_ok s = true -> ~ In 46 s.
+Proof.
+  intros Hs Hin. destruct (san_ok_chars s Hs) as (_ & Hch & _). rewrite forallb_forall in Hch.
+  apply Hch, san_char_facts in Hin. tauto.
+Qed.
+
+Lemma num_ok_parts ds nd : sword_ok (WNum ds nd) = true -> digits_ok ds 1000 = true /\ (1 <= nd <= 3)%nat.
+Proof.
+  cbn [sword_ok]. intros H. apply andb_prop in H as [H H3]. apply andb_prop in H as [H1 H2].
+  split; [exact H1|]. apply Nat.leb_le in H2, H3. lia.
+Qed.
+
+(** the number pass on a line of words (the first word without its blank) *)
+Lemma N_words t : forall w,
+  sword_ok w = true -> sstage_ok w t = true ->
+  nsh (N_ (rw w ++ rline t)) (stoks ((false, w) :: t)).
+Proof.
+  induction t as [|[g' w'] t' IH]; intros w Hw Ht.
+  - (* last word *)
+    unfold rline. simpl concat.
+    destruct w as [s|ds nd| | | | | |n|r]; try discriminate; cbn [sword_ok] in Hw; cbn [rw stoks].
+    + rewrite N_pass; [|now apply san_ok_no_dot | now left].
+      apply nsh_tok; [exact Hw | now left | constructor].
+    + destruct (num_ok_parts ds nd Hw) as [Hds Hnd].
+      rewrite <- app_assoc. rewrite N_num by auto. constructor.
+    + rewrite N_spaces. apply nsh_spaces. constructor.
+    + rewrite N_pass; [|now apply result_no_dot | now left].
+      apply nsh_res; [exact Hw | now left | constructor].
+  - cbn [sstage_ok] in Ht. apply andb_prop in Ht as [Ht Ht']. apply andb_prop in Ht as [Hw' Hg].
+    cbn [snd] in *. specialize (IH w' Hw' Ht').
+    rewrite rline_cons.
+    assert (Hst : stoks ((false, w') :: t') = stoks ((g', w') :: t')) by reflexivity.
+    destruct w as [s|ds nd| | | | | |n|r]; try discriminate; cbn [sword_ok] in Hw; cbn [rw].
+    + (* a move: the next word carries no glue *)
+      assert (g' = false) as -> by (unfold sglue_ok in Hg; simpl in Hg; destruct g'; [discriminate | reflexivity]).
+      cbn [sep]. rewrite N_pass; [|now apply san_ok_no_dot | apply spaced_num_safe; right; eauto].
+      change ([32] ++ rw w' ++ rline t') with (32 :: (rw w' ++ rline t')). rewrite N_space.
+      cbn [stoks]. apply nsh_tok; [exact Hw | right; eauto | constructor; exact IH].
+    + (* a move number: it disappears together with one following blank *)
+      destruct (num_ok_parts ds nd Hw) as [Hds Hnd].
+      change (stoks ((false, WNum ds nd) :: (g', w') :: t')) with (stoks ((false, w') :: t')).
+      destruct g'.
+      * (* glued move *)
+        destruct w' as [s| | | | | | | |]; try (unfold sglue_ok in Hg; simpl in Hg; discriminate).
+        cbn [sep rw app]. simpl in Hw'.
+        destruct (san_ok_chars s Hw') as (Hne & Hch & _). destruct s as [|c s]; [congruence|].
+        assert (Hc : san_char c = true) by (simpl in Hch; lia).
+        apply san_char_facts in Hc.
+        rewrite <- app_assoc.
+        rewrite N_num; [|exact Hds|exact Hnd|right; exists c, (s ++ rline t'); split; [reflexivity|tauto]].
+        change ((c :: s) ++ rline t') with (c :: (s ++ rline t')). cbv iota beta.
+        destruct (N.eqb_spec c 32) as [->|_]; [tauto|]. exact IH.
+      * cbn [sep]. change ([32] ++ rw w' ++ rline t') with (32 :: (rw w' ++ rline t')).
+        rewrite <- app_assoc.
+        rewrite N_num; [|exact Hds|exact Hnd|right; exists 32, (rw w' ++ rline t'); split; [reflexivity|discriminate]].
+        cbv iota beta. rewrite N.eqb_refl. exact IH.
+    + (* blanks *)
+      assert (g' = false) as -> by (unfold sglue_ok in Hg; simpl in Hg; destruct g'; [discriminate | reflexivity]).
+      rewrite N_spaces. cbn [sep]. change ([32] ++ rw w' ++ rline t') with (32 :: (rw w' ++ rline t')).
+      rewrite N_space. cbn [stoks]. fold (stoks ((false, w') :: t')).
+      apply nsh_spaces. constructor. exact IH.
+    + (* a result *)
+      assert (g' = false) as -> by (unfold sglue_ok in Hg; simpl in Hg; destruct g'; [discriminate | reflexivity]).
+      cbn [sep]. rewrite N_pass; [|now apply result_no_dot | apply spaced_num_safe; right; eauto].
+      change ([32] ++ rw w' ++ rline t') with (32 :: (rw w' ++ rline t')). rewrite N_space.
+      cbn [stoks]. fold (stoks ((false, w') :: t')).
+      apply nsh_res; [exact Hw | right; eauto | constructor; exact IH].
+Qed.
+
+(** *** trailing blanks *)
+Definition is_blank (w : word) : bool := match w with WBlank _ => true | _ => false end.
+
+Lemma split_trailing_blanks (t : list gword) :
+  exists t' B, t = t' ++ B /\ Forall (fun gw => is_blank (snd gw) = true) B /\
+               (t' = [] \/ exists t'' gw, t' = t'' ++ [gw] /\ is_blank (snd gw) = false).
+Proof.
+  induction t as [|gw t IH] using rev_ind.
+  - exists [], []. auto.
+  - destruct (is_blank (snd gw)) eqn:E.
+    + destruct IH as (t' & B & -> & HB & Ht'). exists t', (B ++ [gw]). rewrite app_assoc.
+      split; [reflexivity|]. split; [|exact Ht']. apply Forall_app. auto.
+    + exists (t ++ [gw]), []. rewrite app_nil_r. split; [reflexivity|]. split; [constructor|]. right. eauto.
+Qed.
+
+Lemma sstage_ok_app p a b : sstage_ok p (a ++ b) = true -> sstage_ok p a = true.
+Proof.
+  revert p. induction a as [|gw a IH]; intros p H; [reflexivity|].
+  simpl in *. apply andb_prop in H as [H1 H2]. rewrite H1. simpl. eauto.
+Qed.
+
+Lemma stoks_app a b : stoks (a ++ b) = stoks a ++ stoks b.
+Proof.
+  induction a as [|[g w] a IH]; [reflexivity|]. simpl. destruct w; simpl; now rewrite ?IH.
+Qed.
+
+Lemma stoks_blanks B : Forall (fun gw => is_blank (snd gw) = true) B -> stoks B = [].
+Proof. induction 1 as [|[g w] B Hb _ IH]; [reflexivity|]. destruct w; try discriminate. exact IH. Qed.
+
+Lemma all_space_tr s : (forall c, In c s -> c = 32) -> tr s = [].
+Proof.
+  induction s as [|c s IH]; intros H; [reflexivity|]. simpl. rewrite IH by (intros; apply H; now right).
+  now rewrite (H c (or_introl eq_refl)).
+Qed.
+
+Lemma rline_blanks_spaces B : Forall (fun gw => is_blank (snd gw) = true) B -> forall c, In c (rline B) -> c = 32.
+Proof.
+  induction 1 as [|[g w] B Hb _ IH]; intros c Hc; [destruct Hc|].
+  rewrite rline_cons in Hc. destruct w; try discriminate. simpl in Hc.
+  apply in_app_or in Hc as [Hc|Hc]; [destruct g; simpl in Hc; [tauto | destruct Hc; [auto | tauto]]|].
+  apply in_app_or in Hc as [Hc|Hc]; [now apply repeat_spec in Hc | now apply IH].
+Qed.
+
+Lemma tr_app_spaces a b : (forall c, In c b -> c = 32) -> tr (a ++ b) = tr a.
+Proof.
+  intros Hb. induction a as [|c a IH]; simpl; [now apply all_space_tr | now rewrite IH].
+Qed.
+
+Lemma sword_last_nonspace w : sword_ok w = true -> is_blank w = false -> last_nonspace (rw w).
+Proof.
+  destruct w as [s|ds nd| | | | | |n|r]; try discriminate; simpl; intros Hw _.
+  - now apply tokstr_last, san_ok_tokstr.
+  - destruct nd as [|nd]; [lia|]. exists (ds ++ repeat 46 nd), 46. split; [|reflexivity].
+    rewrite <- app_assoc. f_equal. clear. induction nd; simpl; [reflexivity | now f_equal].
+  - apply is_result_cases in Hw. destruct Hw as [->|[->| ->]].
+    + exists [49;45], 48. auto.
+    + exists [48;45], 49. auto.
+    + exists [49;47;50;45;49;47], 50. auto.
+Qed.
+
+Lemma sstage_ok_in p t gw : sstage_ok p t = true -> In gw t -> sword_ok (snd gw) = true.
+Proof.
+  revert p. induction t as [|x t IH]; intros p H Hin; [destruct Hin|].
+  simpl in H. apply andb_prop in H as [H1 H2]. apply andb_prop in H1 as [H1 _].
+  destruct Hin as [->|Hin]; [exact H1 | eauto].
+Qed.
+
+Lemma trim_left_spaces k X : trim_left (repeat 32 k ++ X) = trim_left X.
+Proof. induction k; simpl; auto. Qed.
+
+Lemma digits_head ds : digits_ok ds 1000 = true ->
+  exists d ds', ds = d :: ds' /\ is_digit d = true /\ forallb is_digit ds' = true.
+Proof.
+  unfold digits_ok. destruct ds as [|d ds]; [discriminate|]. simpl. intros H. exists d, ds. repeat split; lia.
+Qed.
+
+Lemma is_digit_not_space d : is_digit d = true -> is_space_trim d = false.
+Proof. unfold is_digit, is_space_trim, in_range. lia. Qed.
+
+(** C19 / SAN reader on a cleaned line: blanks, then a move number, then moves, move numbers,
+    blanks and possibly a result, in any order — the tokens are exactly the moves *)
+Theorem tokens_san_words k ds nd t :
+  sword_ok (WNum ds nd) = true -> sstage_ok (WNum ds nd) t = true -> stoks t <> [] ->
+  tokens_san (repeat 32 k ++ ds ++ repeat 46 nd ++ rline t) = Some (stoks t).
+Proof.
+  intros Hn Ht Hne.
+  destruct (num_ok_parts ds nd Hn) as [Hds Hnd].
+  destruct (digits_head ds Hds) as (d & ds' & -> & Hd & Hds').
+  destruct (split_trailing_blanks t) as (t' & B & -> & HB & Hlast).
+  assert (Ht' : sstage_ok (WNum (d :: ds') nd) t' = true) by (eapply sstage_ok_app; eauto).
+  assert (Hst : stoks (t' ++ B) = stoks t') by (now rewrite stoks_app, (stoks_blanks B HB), app_nil_r).
+  rewrite Hst in *.
+  (* the first TrimSpace *)
+  assert (Htrim : trim_space (repeat 32 k ++ (d :: ds') ++ repeat 46 nd ++ rline (t' ++ B))
+                  = (d :: ds') ++ repeat 46 nd ++ rline t').
+  { unfold trim_space. rewrite trim_left_spaces.
+    change ((d :: ds') ++ repeat 46 nd ++ rline (t' ++ B)) with (d :: (ds' ++ repeat 46 nd ++ rline (t' ++ B))).
+    rewrite trim_left_nonspace by now apply is_digit_not_space.
+    rewrite trim_right_tr, rline_app.
+    replace (d :: ds' ++ repeat 46 nd ++ rline t' ++ rline B)
+      with (((d :: ds') ++ repeat 46 nd ++ rline t') ++ rline B)
+      by (simpl; rewrite <- !app_assoc; reflexivity).
+    rewrite tr_app_spaces by now apply rline_blanks_spaces.
+    apply tr_nonspace_end.
+    destruct Hlast as [->|(t'' & gw & -> & Hgw)].
+    - unfold rline. simpl concat. rewrite app_nil_r.
+      apply (sword_last_nonspace (WNum (d :: ds') nd)); [exact Hn | reflexivity].
+    - rewrite rline_app. rewrite !app_assoc. apply last_nonspace_app.
+      destruct gw as [g w]. rewrite rline_cons. unfold rline at 1. simpl concat. rewrite app_nil_r.
+      apply last_nonspace_app. apply sword_last_nonspace; [|exact Hgw].
+      eapply (sstage_ok_in _ _ (g, w) Ht'). apply in_or_app. right. now left. }
+  unfold tokens_san. rewrite Htrim.
+  assert (Hstart : san_line_start ((d :: ds') ++ repeat 46 nd ++ rline t') = true).
+  { unfold san_line_start. destruct nd as [|nd]; [lia|].
+    rewrite span_app; [reflexivity | simpl; lia |].
+    right. exists 46, (repeat 46 nd ++ rline t'). auto. }
+  rewrite Hstart. f_equal.
+  pose proof (N_words t' (WNum (d :: ds') nd) Hn Ht') as HN.
+  cbn [rw stoks] in HN. rewrite <- app_assoc in HN. fold (stoks t') in HN.
+  apply R_nsh in HN. now apply split_shaped.
+Qed.
+
+(** *** SAN format *)
+Lemma dec_digits_ok fuel : forall n acc,
+  forallb is_digit acc = true -> forallb is_digit (dec_digits fuel n acc) = true /\
+  (length (dec_digits fuel n acc) <= fuel + length acc)%nat /\
+  (fuel <> O -> dec_digits fuel n acc <> []).
+Proof.
+  induction fuel as [|f IH]; intros n acc Hacc; simpl.
+  - repeat split; auto; lia.
+  - assert (Hd : is_digit (48 + n mod 10) = true).
+    { unfold is_digit, in_range. pose proof (N.mod_lt n 10). lia. }
+    destruct (n / 10 =? 0).
+    + simpl. rewrite Hd, Hacc. split; [reflexivity|]. split; [lia | discriminate].
+    + destruct (IH (n / 10) ((48 + n mod 10) :: acc)) as (H1 & H2 & H3); [simpl; now rewrite Hd, Hacc|].
+      split; [exact H1|]. split; [simpl in H2; lia|].
+      intros _. destruct f; [simpl; discriminate | now apply H3].
+Qed.
+
+Lemma decimal_ok n : digits_ok (decimal n) 1000 = true.
+Proof.
+  unfold decimal. destruct (dec_digits_ok 40 n [] eq_refl) as (H1 & H2 & H3).
+  unfold digits_ok. destruct (dec_digits 40 n []) eqn:E; [now specialize (H3 ltac:(lia))|].
+  rewrite H1. simpl in H2. simpl length. apply andb_true_intro. split; [reflexivity|]. apply Nat.leb_le. lia.
+Qed.
+
+Lemma san_words_ok glue g : forall no white prev,
+  Forall (fun s => san_ok s = true) g ->
+  (white = false -> match prev with WTok _ => True | _ => False end) ->
+  (white = true -> match prev with WNum _ _ => False | _ => True end) ->
+  sstage_ok prev (san_words glue no white g) = true /\ stoks (san_words glue no white g) = g.
+Proof.
+  induction g as [|s g IH]; intros no white prev Hg Hb Hw; [split; reflexivity|].
+  pose proof (Forall_inv Hg) as Hs. apply Forall_inv_tail in Hg.
+  destruct white; cbn [san_words].
+  - destruct (IH no false (WTok s) Hg) as [IH1 IH2]; [auto | discriminate|].
+    split; [|cbn [stoks]; now rewrite IH2].
+    cbn [sstage_ok snd fst sword_ok]. rewrite (decimal_ok no), Hs, IH1.
+    unfold sglue_ok. cbn [fst snd negb]. destruct glue; simpl; reflexivity.
+  - destruct (IH (no + 1) true (WTok s) Hg) as [IH1 IH2]; [discriminate | auto|].
+    split; [|cbn [stoks]; now rewrite IH2].
+    cbn [sstage_ok snd fst sword_ok]. rewrite Hs, IH1. reflexivity.
+Qed.
+
+(** C19 / SAN reader: [1. e4 e5 2. Nf3 ...] or [1.e4 e5 2.Nf3 ...], optionally followed by
+    1-0, 0-1 or 1/2-1/2, is read as exactly its moves *)
+Theorem tokens_san_render glue g res :
+  g <> [] -> Forall (fun s => san_ok s = true) g ->
+  match res with Some r => is_result r = true | None => True end ->
+  tokens_san (render_san glue g res) = Some g.
+Proof.
+  intros Hne Hg Hres. unfold render_san.
+  destruct g as [|s g]; [congruence|]. cbn [san_words app rline0 rw].
+  set (t := (glue, WTok s) :: san_words glue 1 false g ++
+            match res with Some r => [(false, WResult r)] | None => [] end).
+  pose proof (Forall_inv Hg) as Hs. apply Forall_inv_tail in Hg.
+  destruct (san_words_ok glue g 1 false (WTok s) Hg) as [H1 H2]; [auto | discriminate|].
+  assert (Hstok : stoks t = s :: g).
+  { unfold t. cbn [stoks]. rewrite stoks_app, H2. destruct res; simpl; now rewrite app_nil_r. }
+  assert (Hok : sstage_ok (WNum (decimal 1) 1) t = true).
+  { unfold t. cbn [sstage_ok snd fst sword_ok]. rewrite Hs.
+    assert (Hgl : sglue_ok (WNum (decimal 1) 1) (glue, WTok s) = true) by (unfold sglue_ok; simpl; destruct glue; reflexivity).
+    rewrite Hgl. simpl andb.
+    clear Hstok t. revert H1. generalize (WTok s) as p. generalize (san_words glue 1 false g) as l.
+    induction l as [|x l IHl]; intros p Hp.
+    - destruct res as [r|]; simpl; [|reflexivity]. simpl in Hres. now rewrite Hres.
+    - simpl in *. apply andb_prop in Hp as [Hp1 Hp2]. rewrite Hp1. simpl. now apply IHl. }
+  pose proof (tokens_san_words 0 (decimal 1) 1 t eq_refl Hok) as HT.
+  rewrite Hstok in HT. apply HT. discriminate.
+Qed.
+
+(** non-vacuity: 1.e4 e5 2.Nf3 1/2-1/2 *)
+Example tokens_san_render_ex :
+  render_san true [[101;52];[101;53];[78;102;51]] (Some s_draw)
+  = [49;46;101;52;32;101;53;32;50;46;78;102;51;32;49;47;50;45;49;47;50] /\
+  tokens_san (render_san true [[101;52];[101;53];[78;102;51]] (Some s_draw)) = Some [[101;52];[101;53];[78;102;51]].
+Proof. split; vm_compute; reflexivity. Qed.
+(* ========================================================================= *)
+(** ** processPgnGame: the three replace passes $n, {..}, <..> on a line of words *)
+
+Section Pass.
+  Variable m : str -> option nat.
+  Variable c0 : N.
+  Variable target : word -> bool.
+  Variable Rok : str -> Prop.
+  Hypothesis m_starts : starts_only m c0.
+  Hypothesis c0_not_space : c0 <> 32.
+  Hypothesis m_target : forall w R, target w = true -> word_ok w = true -> Rok R ->
+      exists c x, rw w = c :: x /\ m (rw w ++ R) = Some (length (rw w)).
+
+  Definition blank_target (gw : gword) : gword :=
+    if target (snd gw) then (fst gw, WBlank 1) else gw.
+
+  Fixpoint pass_pre (ws : list gword) : Prop :=
+    match ws with
+    | [] => True
+    | (g, w) :: t => (if target w then word_ok w = true /\ Rok (rline t) else ~ In c0 (rw w)) /\ pass_pre t
+    end.
+
+  Lemma sep_no_c0 g : ~ In c0 (sep g).
+  Proof. destruct g; simpl; [tauto|]. intros [H|[]]. congruence. Qed.
+
+  Lemma pass_words ws : pass_pre ws -> ra m [32] 0 (rline ws) = rline (map blank_target ws).
+  Proof.
+    induction ws as [|[g w] t IH]; intros Hpre; [reflexivity|].
+    destruct Hpre as [Hw Ht]. specialize (IH Ht).
+    cbn [map]. unfold blank_target at 1. cbn [fst snd].
+    rewrite rline_cons.
+    rewrite (ra_pass m [32] (sep g)); [|apply (nomatch_no_start m c0); [exact m_starts | apply sep_no_c0]].
+    destruct (target w) eqn:Etw.
+    - destruct Hw as [Hwok HR]. destruct (m_target w (rline t) Etw Hwok HR) as (c & x & Hrw & Hm).
+      rewrite rline_cons. cbn [rw repeat]. rewrite Hrw in *.
+      rewrite ra_hit by exact Hm. now rewrite IH.
+    - rewrite rline_cons.
+      rewrite (ra_pass m [32] (rw w)); [|apply (nomatch_no_start m c0); [exact m_starts | exact Hw]].
+      now rewrite IH.
+  Qed.
+End Pass.
+
+(** characters of the words *)
+Definition special (c : N) : Prop := c = 36 \/ c = 123 \/ c = 125 \/ c = 60 \/ c = 62 \/ c = 40 \/ c = 41 \/ c = 59 \/ c = 34.
+
+Lemma san_ok_no_special s c : san_ok s = true -> In c s -> ~ special c.
+Proof.
+  intros Hs Hin. destruct (san_ok_chars s Hs) as (_ & Hch & _). rewrite forallb_forall in Hch.
+  apply Hch, san_char_facts in Hin. unfold special. intuition congruence.
+Qed.
+
+Lemma digits_chars ds k c : digits_ok ds k = true -> In c ds -> is_digit c = true.
+Proof.
+  unfold digits_ok. destruct ds as [|d ds]; [discriminate|]. intros H Hin.
+  apply andb_prop in H as [H _]. rewrite forallb_forall in H. now apply H.
+Qed.
+
+Lemma num_chars ds nd c : word_ok (WNum ds nd) = true -> In c (rw (WNum ds nd)) -> is_digit c = true \/ c = 46.
+Proof.
+  cbn [word_ok rw]. intros H Hin. apply andb_prop in H as [H _]. apply andb_prop in H as [H _].
+  apply in_app_or in Hin as [Hin|Hin]; [left; eapply digits_chars; eauto | right; now apply repeat_spec in Hin].
+Qed.
+
+Lemma digit_not_special c : is_digit c = true \/ c = 46 -> ~ special c /\ c <> 32.
+Proof. unfold is_digit, in_range, special. intros H. split; lia. Qed.
+
+(** *** $n *)
+Definition is_nag (w : word) : bool := match w with WNag _ => true | _ => false end.
+Definition nondigit_start (R : str) : Prop := R = [] \/ exists c R', R = c :: R' /\ is_digit c = false.
+
+Lemma m_nag_hit w R : is_nag w = true -> word_ok w = true -> nondigit_start R ->
+  exists c x, rw w = c :: x /\ m_nag (rw w ++ R) = Some (length (rw w)).
+Proof.
+  destruct w as [| |ds| | | | | |]; try discriminate. intros _ Hw HR. cbn [word_ok] in Hw.
+  exists 36, ds. split; [reflexivity|]. cbn [rw]. unfold m_nag. cbn [app N.eqb Pos.eqb].
+  unfold digits_ok in Hw. destruct ds as [|d ds]; [discriminate|]. apply andb_prop in Hw as [Hd Hl].
+  rewrite span_app; [|exact Hd|exact HR]. cbn [fst]. apply Nat.leb_le in Hl.
+  replace (Nat.min 3 (length (d :: ds))) with (length (d :: ds)) by lia. reflexivity.
+Qed.
+
+(** *** {..} and <..> *)
+Lemma scan_delim_body op cl body R :
+  ~ In op body -> ~ In cl body -> scan_delim op cl (body ++ cl :: R) = Some (S (length body)).
+Proof.
+  induction body as [|c body IH]; intros Ho Hc; simpl.
+  - now rewrite N.eqb_refl.
+  - destruct (N.eqb_spec c cl) as [->|_]; [exfalso; apply Hc; now left|].
+    destruct (N.eqb_spec c op) as [->|_]; [exfalso; apply Ho; now left|].
+    rewrite IH; [reflexivity | intros H; apply Ho; now right | intros H; apply Hc; now right].
+Qed.
+
+Definition is_com (w : word) : bool := match w with WCom _ => true | _ => false end.
+Definition is_ang (w : word) : bool := match w with WAng _ => true | _ => false end.
+
+Lemma com_body_chars body c : forallb com_char body = true -> In c body ->
+  c <> 123 /\ c <> 125 /\ c <> 59 /\ c <> 34 /\ c <> 36.
+Proof. intros H Hin. rewrite forallb_forall in H. apply H in Hin. unfold com_char in Hin. lia. Qed.
+Lemma ang_body_chars body c : forallb ang_char body = true -> In c body ->
+  c <> 123 /\ c <> 125 /\ c <> 59 /\ c <> 34 /\ c <> 36 /\ c <> 60 /\ c <> 62.
+Proof. intros H Hin. rewrite forallb_forall in H. apply H in Hin. unfold ang_char, com_char in Hin. lia. Qed.
+
+Lemma m_brace_hit w R : is_com w = true -> word_ok w = true -> True ->
+  exists c x, rw w = c :: x /\ m_brace (rw w ++ R) = Some (length (rw w)).
+Proof.
+  destruct w as [| | |body| | | | |]; try discriminate. intros _ Hw _. cbn [word_ok] in Hw.
+  exists 123, (body ++ [125]). split; [reflexivity|]. cbn [rw]. unfold m_brace, m_delim.
+  cbn [app N.eqb Pos.eqb]. rewrite <- app_assoc. cbn [app].
+  rewrite scan_delim_body.
+  - cbn [option_map length]. now rewrite app_length, Nat.add_1_r.
+  - intros H. apply (com_body_chars body 123 Hw) in H. tauto.
+  - intros H. apply (com_body_chars body 125 Hw) in H. tauto.
+Qed.
+
+Lemma m_angle_hit w R : is_ang w = true -> word_ok w = true -> True ->
+  exists c x, rw w = c :: x /\ m_angle (rw w ++ R) = Some (length (rw w)).
+Proof.
+  destruct w as [| | | |body| | | |]; try discriminate. intros _ Hw _. cbn [word_ok] in Hw.
+  exists 60, (body ++ [62]). split; [reflexivity|]. cbn [rw]. unfold m_angle, m_delim.
+  cbn [app N.eqb Pos.eqb]. rewrite <- app_assoc. cbn [app].
+  rewrite scan_delim_body.
+  - cbn [option_map length]. now rewrite app_length, Nat.add_1_r.
+  - intros H. apply (ang_body_chars body 60 Hw) in H. tauto.
+  - intros H. apply (ang_body_chars body 62 Hw) in H. tauto.
+Qed.
+
+(** *** which words may occur at which stage *)
+Definition pword_ok (w : word) : bool := word_ok w || is_blank w.
+
+(** the three passes in sequence *)
+Definition pass1 (ws : list gword) := map (blank_target is_nag) ws.
+Definition pass2 (ws : list gword) := map (blank_target is_com) ws.
+Definition pass3 (ws : list gword) := map (blank_target is_ang) ws.
+
+Lemma rw_no_char w c0 : pword_ok w = true ->
+  (c0 = 36 -> is_nag w = false) ->
+  (c0 = 123 -> is_com w = false) ->
+  (c0 = 60 -> is_ang w = false /\ is_com w = false) ->
+  (c0 = 36 \/ c0 = 123 \/ c0 = 60) -> ~ In c0 (rw w).
+Proof.
+  intros Hw H36 H123 H60 Hc0 Hin. unfold pword_ok in Hw.
+  destruct w as [s|ds nd|ds|body|body| | |n|r]; cbn [word_ok is_blank orb rw] in *; rewrite ?orb_false_r in Hw; try discriminate.
+  - apply (san_ok_no_special s c0 Hw Hin). unfold special. lia.
+  - apply (num_chars ds nd c0 Hw) in Hin. apply digit_not_special in Hin. unfold special in Hin. lia.
+  - destruct Hin as [<-|Hin]; [specialize (H36 eq_refl); discriminate|].
+    apply (digits_chars ds 3 c0 Hw) in Hin. unfold is_digit, in_range in Hin. lia.
+  - destruct Hin as [<-|Hin]; [specialize (H123 eq_refl); discriminate|].
+    apply in_app_or in Hin as [Hin|[<-|[]]].
+    + apply (com_body_chars body c0 Hw) in Hin. destruct Hc0 as [->|[->| ->]]; try lia.
+      destruct (H60 eq_refl); discriminate.
+    + lia.
+  - destruct Hin as [<-|Hin]; [destruct (H60 eq_refl); discriminate|].
+    apply in_app_or in Hin as [Hin|[<-|[]]].
+    + apply (ang_body_chars body c0 Hw) in Hin. lia.
+    + lia.
+  - destruct Hin as [<-|[]]. lia.
+  - destruct Hin as [<-|[]]. lia.
+  - apply repeat_spec in Hin. lia.
+Qed.
+(* ========================================================================= *)
+(** ** The RAV loop: for regexRavVariants.MatchString(line) { ReplaceAllString(line, " ") } *)
+
+(** what the loop computes on a balanced line, in one pass: everything inside parentheses is
+    dropped, every top-level group becomes one blank *)
+Fixpoint strip (d : nat) (s : str) : str :=
+  match s with
+  | [] => []
+  | c :: t =>
+    if c =? 40 then strip (S d) t
+    else if c =? 41 then
+      match d with
+      | O => 41 :: strip 0 t
+      | S O => 32 :: strip 0 t
+      | S d' => strip d' t
+      end
+    else match d with O => c :: strip 0 t | _ => strip d t end
+  end.
+
+Fixpoint bal (d : nat) (s : str) : bool :=
+  match s with
+  | [] => (d =? 0)%nat
+  | c :: t =>
+    if c =? 40 then bal (S d) t
+    else if c =? 41 then match d with O => false | S d' => bal d' t end
+    else bal d t
+  end.
+
+Lemma scan_delim_spec op cl t n : scan_delim op cl t = Some n ->
+  exists body rest, t = body ++ cl :: rest /\ n = S (length body) /\ ~ In op body /\ ~ In cl body.
+Proof.
+  revert n. induction t as [|c t IH]; intros n H; simpl in H; [discriminate|].
+  destruct (N.eqb_spec c cl) as [->|Hcl].
+  - injection H as <-. exists [], t. simpl. auto.
+  - destruct (N.eqb_spec c op) as [->|Hop]; [discriminate|].
+    destruct (scan_delim op cl t) as [k|] eqn:E; [|discriminate]. injection H as <-.
+    destruct (IH k eq_refl) as (body & rest & -> & -> & Ho & Hc).
+    exists (c :: body), rest. simpl. repeat split; auto; intros [?|?]; auto.
+Qed.
+
+Lemma m_paren_spec s n : m_paren s = Some n ->
+  exists body rest, s = 40 :: body ++ 41 :: rest /\ n = S (S (length body)) /\ ~ In 40 body /\ ~ In 41 body.
+Proof.
+  unfold m_paren, m_delim. destruct s as [|c t]; [discriminate|].
+  destruct (N.eqb_spec c 40) as [->|]; [|discriminate].
+  destruct (scan_delim 40 41 t) as [k|] eqn:E; [|discriminate]. intros [= <-].
+  destruct (scan_delim_spec _ _ _ _ E) as (body & rest & -> & -> & Ho & Hc). eauto 7.
+Qed.
+
+Lemma strip_inside d body R : ~ In 40 body -> ~ In 41 body -> strip (S d) (body ++ R) = strip (S d) R.
+Proof.
+  induction body as [|c body IH]; intros Ho Hc; [reflexivity|]. simpl.
+  destruct (N.eqb_spec c 40) as [->|_]; [exfalso; apply Ho; now left|].
+  destruct (N.eqb_spec c 41) as [->|_]; [exfalso; apply Hc; now left|].
+  apply IH; intros H; [apply Ho | apply Hc]; now right.
+Qed.
+Lemma bal_inside d body R : ~ In 40 body -> ~ In 41 body -> bal d (body ++ R) = bal d R.
+Proof.
+  induction body as [|c body IH]; intros Ho Hc; [reflexivity|]. simpl.
+  destruct (N.eqb_spec c 40) as [->|_]; [exfalso; apply Ho; now left|].
+  destruct (N.eqb_spec c 41) as [->|_]; [exfalso; apply Hc; now left|].
+  apply IH; intros H; [apply Ho | apply Hc]; now right.
+Qed.
+
+Definition P_ := ra m_paren [32] 0.
+
+(** one pass changes neither the final answer nor the balance, and never lengthens the line *)
+Lemma paren_pass_inv : forall n s, (length s <= n)%nat ->
+  (forall d, strip d (P_ s) = strip d s) /\ (forall d, bal d (P_ s) = bal d s) /\
+  (length (P_ s) <= length s)%nat /\
+  (has_match m_paren s = true -> length (P_ s) < length s)%nat.
+Proof.
+  induction n as [|n IH]; intros s Hlen.
+  - destruct s; [|simpl in Hlen; lia]. simpl. repeat split; auto; discriminate.
+  - destruct s as [|c t]; [simpl; repeat split; auto; discriminate|].
+    unfold P_. cbn [ra has_match]. destruct (m_paren (c :: t)) as [[|k]|] eqn:Em.
+    + (* a match of length 0 is impossible *)
+      destruct (m_paren_spec _ _ Em) as (? & ? & _ & ? & _). discriminate.
+    + destruct (m_paren_spec _ _ Em) as (body & rest & Heq & Hk & Ho & Hc).
+      injection Heq as -> ->. injection Hk as ->.
+      replace (body ++ 41 :: rest) with ((body ++ [41]) ++ rest) by (now rewrite <- app_assoc).
+      replace (S (length body)) with (length (body ++ [41])) by (rewrite app_length; simpl; lia).
+      rewrite ra_skip_len. fold (P_ rest).
+      assert (Hr : (length rest <= n)%nat) by (simpl in Hlen; rewrite app_length in Hlen; simpl in Hlen; lia).
+      destruct (IH rest Hr) as (Hs & Hb & Hl & _).
+      rewrite <- app_assoc. cbn [app].
+      repeat split.
+      * intros d. cbn [strip N.eqb Pos.eqb app]. rewrite (strip_inside d body (41 :: rest) Ho Hc).
+        cbn [strip N.eqb Pos.eqb]. destruct d as [|d]; [now rewrite Hs | apply Hs].
+      * intros d. cbn [bal N.eqb Pos.eqb app]. rewrite (bal_inside (S d) body (41 :: rest) Ho Hc).
+        cbn [bal N.eqb Pos.eqb]. apply Hb.
+      * cbn [length app]. rewrite app_length. simpl. lia.
+      * intros _. cbn [length app]. rewrite app_length. simpl. lia.
+    + assert (Hr : (length t <= n)%nat) by (simpl in Hlen; lia).
+      destruct (IH t Hr) as (Hs & Hb & Hl & Hm). fold (P_ t).
+      repeat split.
+      * intros d. cbn [strip]. destruct (c =? 40); [apply Hs|]. destruct (c =? 41).
+        -- destruct d as [|[|d]]; [now rewrite Hs | now rewrite Hs | apply Hs].
+        -- destruct d; [now rewrite Hs | apply Hs].
+      * intros d. cbn [bal]. destruct (c =? 40); [apply Hb|]. destruct (c =? 41); [|apply Hb].
+        destruct d; [reflexivity | apply Hb].
+      * simpl. lia.
+      * intros H. specialize (Hm H). simpl. lia.
+Qed.
+
+(** termination of the real loop: every iteration that finds a match shortens the line, so the
+    loop has ended after at most [length line] iterations — for EVERY line, balanced or not *)
+Theorem rav_loop_fuel_enough : forall fuel s, (length s <= fuel)%nat ->
+  has_match m_paren (rav_loop fuel s) = false.
+Proof.
+  induction fuel as [|f IH]; intros s Hlen.
+  - destruct s; [reflexivity | simpl in Hlen; lia].
+  - simpl. destruct (has_match m_paren s) eqn:E; [|exact E].
+    apply IH. destruct (paren_pass_inv (length s) s (le_n _)) as (_ & _ & _ & Hlt).
+    specialize (Hlt E). unfold P_ in Hlt. lia.
+Qed.
+
+Lemma scan_delim_some op cl t : ~ In op t -> In cl t -> exists n, scan_delim op cl t = Some n.
+Proof.
+  induction t as [|c t IH]; intros Ho Hc; [destruct Hc|]. simpl.
+  destruct (N.eqb_spec c cl) as [->|Hne]; [eauto|].
+  destruct (N.eqb_spec c op) as [->|_]; [exfalso; apply Ho; now left|].
+  destruct IH as (n & ->); [intros H; apply Ho; now right | destruct Hc; [congruence | assumption] | eauto].
+Qed.
+
+Lemma bal_no_open_has_close t : forall d, bal (S d) t = true -> ~ In 40 t -> In 41 t.
+Proof.
+  induction t as [|c t IH]; intros d Hb Ho; [discriminate|]. simpl in Hb.
+  destruct (N.eqb_spec c 40) as [->|_]; [exfalso; apply Ho; now left|].
+  destruct (N.eqb_spec c 41) as [->|_]; [now left|].
+  right. eapply IH; eauto. intros H; apply Ho; now right.
+Qed.
+
+Lemma nomatch_no_open s : forall d, bal d s = true -> has_match m_paren s = false -> ~ In 40 s.
+Proof.
+  induction s as [|c t IH]; intros d Hb Hm; [tauto|]. cbn [has_match] in Hm.
+  destruct (m_paren (c :: t)) as [[|k]|] eqn:Em; try discriminate.
+  - destruct (m_paren_spec _ _ Em) as (? & ? & _ & ? & _). discriminate.
+  - cbn [bal] in Hb. destruct (N.eqb_spec c 40) as [->|Hc].
+    + exfalso. pose proof (IH _ Hb Hm) as Hno.
+      pose proof (bal_no_open_has_close t d Hb Hno) as Hcl.
+      destruct (scan_delim_some 40 41 t Hno Hcl) as (n & Hn).
+      unfold m_paren, m_delim in Em. cbn [N.eqb Pos.eqb] in Em. rewrite Hn in Em. discriminate.
+    + intros [H|H]; [congruence|]. destruct (c =? 41).
+      * destruct d; [discriminate | eapply IH; eauto].
+      * eapply IH; eauto.
+Qed.
+
+Lemma bal0_no_open_no_close s : bal 0 s = true -> ~ In 40 s -> ~ In 41 s.
+Proof.
+  induction s as [|c t IH]; intros Hb Ho; [tauto|]. cbn [bal] in Hb.
+  destruct (N.eqb_spec c 40) as [->|_]; [exfalso; apply Ho; now left|].
+  destruct (N.eqb_spec c 41) as [->|Hc]; [discriminate|].
+  intros [H|H]; [congruence|]. apply IH; auto. intros H'; apply Ho; now right.
+Qed.
+
+Lemma strip0_noparen s : ~ In 40 s -> ~ In 41 s -> strip 0 s = s.
+Proof.
+  induction s as [|c t IH]; intros Ho Hc; [reflexivity|]. cbn [strip].
+  destruct (N.eqb_spec c 40) as [->|_]; [exfalso; apply Ho; now left|].
+  destruct (N.eqb_spec c 41) as [->|_]; [exfalso; apply Hc; now left|].
+  f_equal. apply IH; intros H; [apply Ho | apply Hc]; now right.
+Qed.
+
+(** on a balanced line the loop computes [strip 0] *)
+Theorem rav_loop_strip : forall fuel s, (length s <= fuel)%nat -> bal 0 s = true ->
+  rav_loop fuel s = strip 0 s.
+Proof.
+  induction fuel as [|f IH]; intros s Hlen Hb.
+  - destruct s; [reflexivity | simpl in Hlen; lia].
+  - simpl. destruct (paren_pass_inv (length s) s (le_n _)) as (Hs & Hbal & _ & Hlt).
+    destruct (has_match m_paren s) eqn:E.
+    + fold (P_ s). rewrite IH; [apply Hs | specialize (Hlt eq_refl); lia | now rewrite Hbal].
+    + pose proof (nomatch_no_open s 0 Hb E) as Ho.
+      symmetry. apply strip0_noparen; [exact Ho | now apply bal0_no_open_no_close].
+Qed.
+
+(** *** strip on a line of words *)
+Definition is_paren (w : word) : bool := match w with WOpen | WClose => true | _ => false end.
+
+Fixpoint wstrip (d : nat) (ws : list gword) : list gword :=
+  match ws with
+  | [] => []
+  | (g, WOpen) :: t => (match d with O => [(g, WBlank 0)] | _ => [] end) ++ wstrip (S d) t
+  | (g, WClose) :: t =>
+    match d with
+    | O => (g, WClose) :: wstrip 0 t
+    | S O => (false, WBlank 0) :: wstrip 0 t
+    | S d' => wstrip d' t
+    end
+  | gw :: t => (match d with O => [gw] | _ => [] end) ++ wstrip d t
+  end.
+
+Lemma strip_noparen a : ~ In 40 a -> ~ In 41 a -> forall d R,
+  strip d (a ++ R) = (match d with O => a | _ => [] end) ++ strip d R.
+Proof.
+  induction a as [|c a IH]; intros Ho Hc d R; [destruct d; reflexivity|]. cbn [app strip].
+  destruct (N.eqb_spec c 40) as [->|_]; [exfalso; apply Ho; now left|].
+  destruct (N.eqb_spec c 41) as [->|_]; [exfalso; apply Hc; now left|].
+  destruct d; (rewrite IH; [reflexivity | intros H; apply Ho; now right | intros H; apply Hc; now right]).
+Qed.
+
+Lemma sep_noparen g : ~ In 40 (sep g) /\ ~ In 41 (sep g).
+Proof. destruct g; simpl; split; intros H; try tauto; destruct H as [H|[]]; discriminate. Qed.
+
+(** words that remain after the three replace passes *)
+Definition rword_ok (w : word) : bool :=
+  match w with
+  | WTok s => san_ok s
+  | WNum ds nd => word_ok (WNum ds nd)
+  | WOpen | WClose | WBlank _ => true
+  | _ => false
+  end.
+
+Lemma rword_noparen w : rword_ok w = true -> is_paren w = false -> ~ In 40 (rw w) /\ ~ In 41 (rw w).
+Proof.
+  destruct w as [s|ds nd| | | | | |n|]; try discriminate; cbn [rword_ok rw]; intros Hw _.
+  - split; intros H; apply (san_ok_no_special s _ Hw) in H; apply H; unfold special; lia.
+  - split; intros H; apply (num_chars ds nd _ Hw), digit_not_special in H; unfold special in H; lia.
+  - split; intros H; apply repeat_spec in H; discriminate.
+Qed.
+
+Lemma strip_words ws : forall d, forallb (fun gw => rword_ok (snd gw)) ws = true ->
+  strip d (rline ws) = rline (wstrip d ws).
+Proof.
+  induction ws as [|[g w] t IH]; intros d Hok; [destruct d; reflexivity|].
+  cbn [forallb snd] in Hok. apply andb_prop in Hok as [Hw Ht].
+  rewrite rline_cons. destruct (sep_noparen g) as [Hs1 Hs2].
+  rewrite (strip_noparen (sep g) Hs1 Hs2).
+  destruct (is_paren w) eqn:Ep.
+  - destruct w; try discriminate; cbn [rw app strip N.eqb Pos.eqb wstrip].
+    + rewrite IH by exact Ht. destruct d; [|reflexivity].
+      change ([(g, WBlank 0)] ++ wstrip 1 t) with ((g, WBlank 0) :: wstrip 1 t).
+      now rewrite rline_cons.
+    + destruct d as [|[|d]].
+      * rewrite IH by exact Ht. now rewrite rline_cons.
+      * rewrite IH by exact Ht. now rewrite rline_cons.
+      * now rewrite IH by exact Ht.
+  - destruct (rword_noparen w Hw Ep) as [Hr1 Hr2].
+    rewrite (strip_noparen (rw w) Hr1 Hr2). rewrite IH by exact Ht.
+    assert (Hws : wstrip d ((g, w) :: t) = (match d with O => [(g, w)] | _ => [] end) ++ wstrip d t)
+      by (destruct w; try discriminate; reflexivity).
+    rewrite Hws. destruct d; [|reflexivity].
+    change ([(g, w)] ++ wstrip 0 t) with ((g, w) :: wstrip 0 t). now rewrite rline_cons.
+Qed.
+
+Lemma bal_words_bal ws : forall d, forallb (fun gw => rword_ok (snd gw)) ws = true ->
+  bal d (rline ws) = bal_words d ws.
+Proof.
+  induction ws as [|[g w] t IH]; intros d Hok; [reflexivity|].
+  cbn [forallb snd] in Hok. apply andb_prop in Hok as [Hw Ht].
+  rewrite rline_cons. destruct (sep_noparen g) as [Hs1 Hs2].
+  rewrite (bal_inside d (sep g) _ Hs1 Hs2).
+  destruct (is_paren w) eqn:Ep.
+  - destruct w; try discriminate; cbn [rw app bal N.eqb Pos.eqb bal_words].
+    + now apply IH.
+    + destruct d; [reflexivity | now apply IH].
+  - destruct (rword_noparen w Hw Ep) as [Hr1 Hr2].
+    rewrite (bal_inside d (rw w) _ Hr1 Hr2). rewrite IH by exact Ht.
+    destruct w; try discriminate; reflexivity.
+Qed.
+(* ========================================================================= *)
+(** ** the whole cleaning of a PGN move line, on words *)
+
+Definition is_deco (w : word) : bool := is_nag w || is_com w || is_ang w.
+
+Section Blanking.
+  Variable tgt : word -> bool.
+  Hypothesis tgt_deco : forall w, tgt w = true -> is_deco w = true.
+
+  Definition img (w : word) : word := if tgt w then WBlank 1 else w.
+
+  Lemma blank_target_img gw : blank_target tgt gw = (fst gw, img (snd gw)).
+  Proof. unfold blank_target, img. destruct gw as [g w]. simpl. destruct (tgt w); reflexivity. Qed.
+
+  Lemma glue_ok_img prev gw : glue_ok prev gw = true -> glue_ok (img prev) (blank_target tgt gw) = true.
+  Proof.
+    rewrite blank_target_img. destruct gw as [g w]. unfold glue_ok, img. cbn [fst snd].
+    destruct g; [|reflexivity]. cbn [negb orb].
+    pose proof (tgt_deco prev) as Hp. pose proof (tgt_deco w) as Hw.
+    destruct (tgt prev) eqn:Ep, (tgt w) eqn:Ew;
+      try specialize (Hp eq_refl); try specialize (Hw eq_refl);
+      destruct prev; try discriminate; destruct w; try discriminate; auto.
+  Qed.
+
+  Lemma glues_ok_img ws : forall prev, glues_ok prev ws = true ->
+    glues_ok (img prev) (map (blank_target tgt) ws) = true.
+  Proof.
+    induction ws as [|gw t IH]; intros prev H; [reflexivity|].
+    cbn [glues_ok map] in *. apply andb_prop in H as [H1 H2].
+    rewrite (glue_ok_img prev gw H1). rewrite blank_target_img at 1. cbn [snd andb]. now apply IH.
+  Qed.
+
+  Lemma bal_words_img ws : forall d, bal_words d (map (blank_target tgt) ws) = bal_words d ws.
+  Proof.
+    induction ws as [|[g w] t IH]; intros d; [reflexivity|]. cbn [map]. rewrite blank_target_img. cbn [fst snd].
+    unfold img. pose proof (tgt_deco w) as Hw.
+    destruct (tgt w); [specialize (Hw eq_refl); destruct w; try discriminate; cbn [bal_words]; apply IH|].
+    destruct w; cbn [bal_words]; try apply IH. destruct d; [reflexivity | apply IH].
+  Qed.
+
+  Lemma top_toks_img ws : forall d, top_toks d (map (blank_target tgt) ws) = top_toks d ws.
+  Proof.
+    induction ws as [|[g w] t IH]; intros d; [reflexivity|]. cbn [map]. rewrite blank_target_img. cbn [fst snd].
+    unfold img. pose proof (tgt_deco w) as Hw.
+    destruct (tgt w); [specialize (Hw eq_refl); destruct w; try discriminate; cbn [top_toks]; apply IH|].
+    destruct w; cbn [top_toks]; rewrite ?IH; reflexivity.
+  Qed.
+
+  Lemma starts_with_num_img ws : forall d, starts_with_num d (map (blank_target tgt) ws) = starts_with_num d ws.
+  Proof.
+    induction ws as [|[g w] t IH]; intros d; [reflexivity|]. cbn [map]. rewrite blank_target_img. cbn [fst snd].
+    unfold img. pose proof (tgt_deco w) as Hw.
+    destruct (tgt w); [specialize (Hw eq_refl); destruct w; try discriminate; cbn [starts_with_num]; apply IH|].
+    destruct w; cbn [starts_with_num]; rewrite ?IH; reflexivity.
+  Qed.
+End Blanking.
+
+Lemma img_blank tgt n : (forall w, tgt w = true -> is_deco w = true) -> img tgt (WBlank n) = WBlank n.
+Proof. intros H. unfold img. destruct (tgt (WBlank n)) eqn:E; [apply H in E; discriminate | reflexivity]. Qed.
+
+(** kinds of words present after each pass *)
+Definition k1 (w : word) : bool := pword_ok w && negb (is_nag w).
+Definition k2 (w : word) : bool := k1 w && negb (is_com w).
+Definition k3 (w : word) : bool := k2 w && negb (is_ang w).
+
+Lemma forallb_map_impl {A} (p q : A -> bool) (f : A -> A) l :
+  (forall x, p x = true -> q (f x) = true) -> forallb p l = true -> forallb q (map f l) = true.
+Proof.
+  intros H. induction l as [|x l IH]; [reflexivity|]. simpl. intros Hp. apply andb_prop in Hp as [H1 H2].
+  now rewrite (H x H1), IH.
+Qed.
+
+Lemma k0_k1 ws : forallb (fun gw : gword => word_ok (snd gw)) ws = true ->
+  forallb (fun gw : gword => k1 (snd gw)) (pass1 ws) = true.
+Proof.
+  apply forallb_map_impl. intros [g w] H. cbn [snd] in *. unfold blank_target. cbn [snd fst].
+  destruct (is_nag w) eqn:E; [reflexivity|]. cbn [snd]. unfold k1, pword_ok. now rewrite H, E.
+Qed.
+Lemma k1_k2 ws : forallb (fun gw : gword => k1 (snd gw)) ws = true ->
+  forallb (fun gw : gword => k2 (snd gw)) (pass2 ws) = true.
+Proof.
+  apply forallb_map_impl. intros [g w] H. cbn [snd] in *. unfold blank_target. cbn [snd fst].
+  destruct (is_com w) eqn:E; [reflexivity|]. cbn [snd]. unfold k2. now rewrite H, E.
+Qed.
+Lemma k2_k3 ws : forallb (fun gw : gword => k2 (snd gw)) ws = true ->
+  forallb (fun gw : gword => k3 (snd gw)) (pass3 ws) = true.
+Proof.
+  apply forallb_map_impl. intros [g w] H. cbn [snd] in *. unfold blank_target. cbn [snd fst].
+  destruct (is_ang w) eqn:E; [reflexivity|]. cbn [snd]. unfold k3. now rewrite H, E.
+Qed.
+
+Lemma k3_rword w : k3 w = true -> rword_ok w = true.
+Proof.
+  unfold k3, k2, k1, pword_ok. destruct w; cbn [word_ok is_blank is_nag is_com is_ang rword_ok negb orb andb];
+    rewrite ?orb_false_r, ?andb_true_r, ?andb_false_r; auto.
+Qed.
+
+(** preconditions of the three passes *)
+Lemma pass1_pre ws : forall prev,
+  forallb (fun gw : gword => word_ok (snd gw)) ws = true -> glues_ok prev ws = true ->
+  pass_pre 36 is_nag nondigit_start ws.
+Proof.
+  induction ws as [|[g w] t IH]; intros prev Hok Hgl; [exact I|].
+  cbn [forallb snd] in Hok. apply andb_prop in Hok as [Hw Ht].
+  cbn [glues_ok snd] in Hgl. apply andb_prop in Hgl as [_ Hgl].
+  cbn [pass_pre]. split; [|eapply IH; eauto].
+  destruct (is_nag w) eqn:E.
+  - split; [exact Hw|]. destruct t as [|[g' w'] t']; [now left|].
+    cbn [glues_ok] in Hgl. apply andb_prop in Hgl as [Hg _]. right.
+    rewrite rline_cons. destruct g'.
+    + destruct w; try discriminate. unfold glue_ok in Hg. cbn [fst snd negb orb] in Hg.
+      destruct w'; try discriminate. exists 41, (rline t'). auto.
+    + exists 32, (rw w' ++ rline t'). auto.
+  - apply rw_no_char; try discriminate; auto. unfold pword_ok. now rewrite Hw.
+Qed.
+
+Lemma pass2_pre ws : forallb (fun gw : gword => k1 (snd gw)) ws = true ->
+  pass_pre 123 is_com (fun _ => True) ws.
+Proof.
+  induction ws as [|[g w] t IH]; intros Hok; [exact I|].
+  cbn [forallb snd] in Hok. apply andb_prop in Hok as [Hw Ht].
+  cbn [pass_pre]. split; [|now apply IH]. unfold k1 in Hw. apply andb_prop in Hw as [Hw Hn].
+  destruct (is_com w) eqn:E.
+  - split; [|exact I]. destruct w; try discriminate. unfold pword_ok in Hw. cbn [is_blank] in Hw. now rewrite orb_false_r in Hw.
+  - apply rw_no_char; try discriminate; auto.
+Qed.
+
+Lemma pass3_pre ws : forallb (fun gw : gword => k2 (snd gw)) ws = true ->
+  pass_pre 60 is_ang (fun _ => True) ws.
+Proof.
+  induction ws as [|[g w] t IH]; intros Hok; [exact I|].
+  cbn [forallb snd] in Hok. apply andb_prop in Hok as [Hw Ht].
+  cbn [pass_pre]. split; [|now apply IH]. unfold k2, k1 in Hw.
+  apply andb_prop in Hw as [Hw Hc]. apply andb_prop in Hw as [Hw Hn].
+  destruct (is_ang w) eqn:E.
+  - split; [|exact I]. destruct w; try discriminate. unfold pword_ok in Hw. cbn [is_blank] in Hw. now rewrite orb_false_r in Hw.
+  - apply rw_no_char; try discriminate; auto. intros _. split; [exact E|]. destruct (is_com w); [discriminate|reflexivity].
+Qed.
+
+(** *** the words that survive, at the SAN stage *)
+Definition grel (prev prev' : word) : Prop :=
+  prev <> WOpen /\ (prev' = prev \/ (prev = WClose /\ prev' = WBlank 0)).
+
+Lemma rword_sword w : rword_ok w = true -> is_paren w = false -> sword_ok w = true.
+Proof. destruct w; try discriminate; auto. Qed.
+
+Lemma grel_glue prev prev' g w :
+  grel prev prev' -> is_paren w = false -> glue_ok prev (g, w) = true -> sglue_ok prev' (g, w) = true.
+Proof.
+  intros [Hno Hr] Hp Hg; unfold glue_ok, sglue_ok in *; cbn [fst snd] in *.
+  destruct g; auto; cbn [negb orb] in *.
+  destruct Hr as [->|[-> ->]].
+  - destruct prev; try congruence; destruct w; try discriminate; auto.
+  - destruct w; try discriminate; auto.
+Qed.
+
+Lemma wstrip_sstage ws : forall d prev prev',
+  forallb (fun gw : gword => rword_ok (snd gw)) ws = true ->
+  glues_ok prev ws = true -> bal_words d ws = true ->
+  (d = O -> grel prev prev') ->
+  sstage_ok prev' (wstrip d ws) = true.
+Proof.
+  induction ws as [|[g w] t IH]; intros d prev prev' Hok Hgl Hbal Hrel; [reflexivity|].
+  cbn [forallb snd] in Hok. apply andb_prop in Hok as [Hw Ht].
+  cbn [glues_ok snd] in Hgl. apply andb_prop in Hgl as [Hg Hgl].
+  destruct (is_paren w) eqn:Ep.
+  - destruct w; try discriminate; cbn [wstrip bal_words] in *.
+    + (* ( *)
+      destruct d as [|d].
+      * destruct (Hrel eq_refl) as [Hno _].
+        assert (g = false) as ->.
+        { unfold glue_ok in Hg. cbn [fst snd] in Hg. destruct g; [|reflexivity]. destruct prev; try discriminate. congruence. }
+        cbn [app sstage_ok snd sword_ok]. unfold sglue_ok. cbn [fst negb orb andb].
+        eapply IH; eauto. discriminate.
+      * cbn [app]. eapply IH; eauto. discriminate.
+    + (* ) *)
+      destruct d as [|[|d]]; [discriminate| |].
+      * cbn [sstage_ok snd sword_ok]. unfold sglue_ok. cbn [fst negb orb andb].
+        eapply IH; eauto. intros _. split; [discriminate | right; auto].
+      * eapply IH; eauto. discriminate.
+  - assert (Hws : wstrip d ((g, w) :: t) = (match d with O => [(g, w)] | _ => [] end) ++ wstrip d t)
+      by (destruct w; try discriminate; reflexivity).
+    assert (Hb : bal_words d t = true) by (destruct w; try discriminate; exact Hbal).
+    change (sstage_ok prev' (wstrip d ((g, w) :: t)) = true).
+    rewrite Hws. destruct d as [|d].
+    + cbn [app sstage_ok snd]. rewrite (rword_sword w Hw Ep).
+      rewrite (grel_glue prev prev' g w (Hrel eq_refl) Ep Hg). cbn [andb].
+      eapply IH; eauto. intros _. split; [destruct w; discriminate | now left].
+    + cbn [app]. eapply IH; eauto. discriminate.
+Qed.
+
+Lemma wstrip_stoks ws : forall d, bal_words d ws = true -> stoks (wstrip d ws) = top_toks d ws.
+Proof.
+  induction ws as [|[g w] t IH]; intros d Hb; [reflexivity|].
+  destruct w; cbn [wstrip top_toks bal_words] in *;
+    try (destruct d; cbn [app stoks Nat.eqb]; now rewrite IH).
+  destruct d as [|[|d]]; [discriminate| |]; cbn [stoks pred]; now apply IH.
+Qed.
+
+Lemma wstrip_starts ws : forall d,
+  forallb (fun gw : gword => rword_ok (snd gw)) ws = true ->
+  bal_words d ws = true -> starts_with_num d ws = true ->
+  exists pre g0 ds nd t, wstrip d ws = pre ++ (g0, WNum ds nd) :: t /\
+                         Forall (fun gw => is_blank (snd gw) = true) pre.
+Proof.
+  induction ws as [|[g w] t IH]; intros d Hok Hb Hs; [discriminate|].
+  cbn [forallb snd] in Hok. apply andb_prop in Hok as [Hw Ht].
+  destruct w as [s|ds nd|ds|body|body| | |n|r]; try discriminate;
+    cbn [wstrip starts_with_num bal_words] in *.
+  - destruct d; [discriminate|]. cbn [Nat.eqb app] in *. now apply IH.
+  - destruct d; cbn [Nat.eqb app] in *.
+    + exists [], g, ds, nd, (wstrip 0 t). split; [reflexivity | constructor].
+    + now apply IH.
+  - destruct (IH (S d) Ht Hb Hs) as (pre & g0 & ds' & nd & t' & -> & Hpre).
+    destruct d; cbn [app]; [|eauto 8].
+    exists ((g, WBlank 0) :: pre), g0, ds', nd, t'. split; [reflexivity | constructor; auto].
+  - destruct d as [|[|d]]; [discriminate| |]; cbn [pred] in Hs.
+    + destruct (IH 0%nat Ht Hb Hs) as (pre & g0 & ds' & nd & t' & -> & Hpre).
+      exists ((false, WBlank 0) :: pre), g0, ds', nd, t'. split; [reflexivity | constructor; auto].
+    + now apply IH.
+  - destruct (IH d Ht Hb Hs) as (pre & g0 & ds' & nd & t' & -> & Hpre).
+    destruct d; cbn [app]; [|eauto 8].
+    exists ((g, WBlank n) :: pre), g0, ds', nd, t'. split; [reflexivity | constructor; auto].
+Qed.
+Lemma nag_deco w : is_nag w = true -> is_deco w = true.
+Proof. unfold is_deco. now intros ->. Qed.
+Lemma com_deco w : is_com w = true -> is_deco w = true.
+Proof. unfold is_deco. intros ->. now rewrite orb_true_r. Qed.
+Lemma ang_deco w : is_ang w = true -> is_deco w = true.
+Proof. unfold is_deco. intros ->. now rewrite orb_true_r. Qed.
+
+Lemma sstage_split p a gw t : sstage_ok p (a ++ gw :: t) = true ->
+  sword_ok (snd gw) = true /\ sstage_ok (snd gw) t = true.
+Proof.
+  revert p. induction a as [|x a IH]; intros p H; cbn [app sstage_ok] in H.
+  - apply andb_prop in H as [H1 H2]. apply andb_prop in H1 as [H1 _]. auto.
+  - apply andb_prop in H as [_ H]. eauto.
+Qed.
+
+Lemma all_spaces_repeat s : (forall c, In c s -> c = 32) -> s = repeat 32 (length s).
+Proof.
+  induction s as [|c s IH]; intros H; [reflexivity|]. simpl.
+  rewrite (H c (or_introl eq_refl)). f_equal. apply IH. intros; apply H; now right.
+Qed.
+
+(** C19 / PGN reader, cleaning of the concatenated move line.  [ws] is any sequence of moves,
+    move numbers, $n, {..}, <..> and (nested) parenthesised variations with the stated glue
+    discipline; the tokens handed to processSingleMove are exactly the moves outside all
+    parentheses. *)
+Theorem pgn_clean_words ws :
+  forallb (fun gw : gword => word_ok (snd gw)) ws = true ->
+  glues_ok (WBlank 0) ws = true ->
+  bal_words 0 ws = true ->
+  starts_with_num 0 ws = true ->
+  top_toks 0 ws <> [] ->
+  tokens_san (pgn_clean (rline ws)) = Some (top_toks 0 ws).
+Proof.
+  intros Hok Hgl Hbal Hstart Hne. unfold pgn_clean.
+  (* $n *)
+  rewrite (pass_words m_nag 36 is_nag nondigit_start m_nag_starts ltac:(discriminate) m_nag_hit ws
+             (pass1_pre ws _ Hok Hgl)).
+  fold (pass1 ws). set (ws1 := pass1 ws).
+  pose proof (k0_k1 ws Hok) as Hk1. fold ws1 in Hk1.
+  (* {..} *)
+  rewrite (pass_words m_brace 123 is_com (fun _ => True) (m_delim_starts 123 125) ltac:(discriminate)
+             m_brace_hit ws1 (pass2_pre ws1 Hk1)).
+  fold (pass2 ws1). set (ws2 := pass2 ws1).
+  pose proof (k1_k2 ws1 Hk1) as Hk2. fold ws2 in Hk2.
+  (* <..> *)
+  rewrite (pass_words m_angle 60 is_ang (fun _ => True) (m_delim_starts 60 62) ltac:(discriminate)
+             m_angle_hit ws2 (pass3_pre ws2 Hk2)).
+  fold (pass3 ws2). set (ws3 := pass3 ws2).
+  pose proof (k2_k3 ws2 Hk2) as Hk3. fold ws3 in Hk3.
+  assert (Hr3 : forallb (fun gw : gword => rword_ok (snd gw)) ws3 = true).
+  { rewrite forallb_forall in *. intros gw Hin. apply k3_rword. now apply Hk3. }
+  (* what the passes preserve *)
+  assert (Hgl3 : glues_ok (WBlank 0) ws3 = true).
+  { pose proof (glues_ok_img is_nag nag_deco ws _ Hgl) as H1. rewrite (img_blank _ _ nag_deco) in H1.
+    pose proof (glues_ok_img is_com com_deco _ _ H1) as H2. rewrite (img_blank _ _ com_deco) in H2.
+    pose proof (glues_ok_img is_ang ang_deco _ _ H2) as H3. now rewrite (img_blank _ _ ang_deco) in H3. }
+  assert (Hbal3 : bal_words 0 ws3 = true).
+  { unfold ws3, ws2, ws1, pass3, pass2, pass1.
+    now rewrite (bal_words_img _ ang_deco), (bal_words_img _ com_deco), (bal_words_img _ nag_deco). }
+  assert (Htop3 : top_toks 0 ws3 = top_toks 0 ws).
+  { unfold ws3, ws2, ws1, pass3, pass2, pass1.
+    now rewrite (top_toks_img _ ang_deco), (top_toks_img _ com_deco), (top_toks_img _ nag_deco). }
+  assert (Hst3 : starts_with_num 0 ws3 = true).
+  { unfold ws3, ws2, ws1, pass3, pass2, pass1.
+    now rewrite (starts_with_num_img _ ang_deco), (starts_with_num_img _ com_deco), (starts_with_num_img _ nag_deco). }
+  (* the loop *)
+  clearbody ws3. clear Hk3 Hk2 Hk1. clearbody ws2. clearbody ws1.
+  rewrite rav_loop_strip; [|apply le_n | rewrite bal_words_bal; [exact Hbal3 | exact Hr3]].
+  rewrite strip_words by exact Hr3.
+  assert (Hgr : grel (WBlank 0) (WBlank 0)) by (split; [discriminate | now left]).
+  pose proof (wstrip_sstage ws3 0 (WBlank 0) (WBlank 0) Hr3 Hgl3 Hbal3 (fun _ => Hgr)) as Hss.
+  pose proof (wstrip_stoks ws3 0 Hbal3) as Hstk. rewrite Htop3 in Hstk.
+  destruct (wstrip_starts ws3 0 Hr3 Hbal3 Hst3) as (pre & g0 & ds & nd & t & Hw & Hpre).
+  rewrite Hw in Hss, Hstk |- *. destruct (sstage_split _ _ _ _ Hss) as [Hn Ht]. cbn [snd] in Hn, Ht.
+  rewrite stoks_app, (stoks_blanks pre Hpre) in Hstk. cbn [app stoks] in Hstk.
+  rewrite rline_app, rline_cons. cbn [rw].
+  assert (Hsp : forall c, In c (rline pre ++ sep g0) -> c = 32).
+  { intros c Hc. apply in_app_or in Hc as [Hc|Hc]; [now apply (rline_blanks_spaces pre Hpre)|].
+    destruct g0; simpl in Hc; [tauto | destruct Hc; [auto | tauto]]. }
+  replace (rline pre ++ sep g0 ++ (ds ++ repeat 46 nd) ++ rline t)
+    with ((rline pre ++ sep g0) ++ ds ++ repeat 46 nd ++ rline t) by (now rewrite <- !app_assoc).
+  rewrite (all_spaces_repeat _ Hsp).
+  rewrite <- Hstk. apply tokens_san_words; [exact Hn | exact Ht | now rewrite Hstk].
+Qed.
+(* ========================================================================= *)
+(** ** processPgnGame: the per-line cleaning, and processPgn: the slicing into games *)
+
+Lemma str_eqb_eq a : forall b, str_eqb a b = true -> a = b.
+Proof.
+  induction a as [|x a IH]; destruct b as [|y b]; simpl; try discriminate; auto.
+  intros H. apply andb_prop in H as [H1 H2]. f_equal; [lia | auto].
+Qed.
+Lemma str_eqb_refl a : str_eqb a a = true.
+Proof. induction a; simpl; [reflexivity|]. now rewrite N.eqb_refl. Qed.
+
+Lemma ends_with_inv s suf : ends_with s suf = true -> exists a, s = a ++ suf.
+Proof.
+  unfold ends_with. intros H. apply andb_prop in H as [_ H]. apply str_eqb_eq in H.
+  exists (firstn (length s - length suf) s).
+  pose proof (firstn_skipn (length s - length suf) s) as E. rewrite H in E. now symmetry.
+Qed.
+Lemma ends_with_app a b : ends_with (a ++ b) b = true.
+Proof.
+  unfold ends_with. rewrite app_length. apply andb_true_intro. split; [apply Nat.leb_le; lia|].
+  replace (length a + length b - length b)%nat with (length a) by lia.
+  rewrite skipn_app, skipn_all, Nat.sub_diag. simpl. apply str_eqb_refl.
+Qed.
+
+Lemma ends_with_last_ne s c suf0 suf d :
+  s = (firstn (length s - 1) s) ++ [c] -> suf0 = suf ++ [d] -> c <> d -> ends_with s suf0 = false.
+Proof.
+  intros Hs -> Hcd. destruct (ends_with s (suf ++ [d])) eqn:E; [|reflexivity]. exfalso.
+  apply ends_with_inv in E as (a & Ha). rewrite Ha in Hs at 1. rewrite app_assoc in Hs.
+  apply app_inj_tail in Hs as [_ Hs]. congruence.
+Qed.
+
+Lemma last_split (s : str) c a : s = a ++ [c] -> s = firstn (length s - 1) s ++ [c].
+Proof.
+  intros ->. rewrite app_length. simpl. replace (length a + 1 - 1)%nat with (length a) by lia.
+  now rewrite firstn_app, firstn_all, Nat.sub_diag, app_nil_r.
+Qed.
+
+(** a line whose last character is none of 0 1 2 and the asterisk does not end with a result marker *)
+Lemma no_result_last a c : c <> 48 -> c <> 49 -> c <> 50 -> c <> 42 -> has_result (a ++ [c]) = false.
+Proof.
+  intros H0 H1 H2 H3. pose proof (last_split (a ++ [c]) c a eq_refl) as Hs.
+  unfold has_result, result_len.
+  rewrite (ends_with_last_ne _ c s_draw [49;47;50;45;49;47] 50 Hs eq_refl H2).
+  rewrite (ends_with_last_ne _ c s_10 [49;45] 48 Hs eq_refl H0).
+  rewrite (ends_with_last_ne _ c s_01 [48;45] 49 Hs eq_refl H1).
+  rewrite (ends_with_last_ne _ c s_star [] 42 Hs eq_refl H3). reflexivity.
+Qed.
+
+Lemma result_len_app Y res : pgn_result_ok res = true -> result_len (Y ++ res) = length res.
+Proof.
+  intros Hres. unfold pgn_result_ok in Hres. apply orb_prop in Hres as [Hres|Hres].
+  - apply is_result_cases in Hres. unfold result_len. destruct Hres as [->|[->| ->]].
+    + rewrite (ends_with_last_ne _ 48 s_draw [49;47;50;45;49;47] 50); [|eapply last_split; change s_10 with ([49;45]++[48]); now rewrite app_assoc | reflexivity | discriminate].
+      now rewrite ends_with_app.
+    + rewrite (ends_with_last_ne _ 49 s_draw [49;47;50;45;49;47] 50); [|eapply last_split; change s_01 with ([48;45]++[49]); now rewrite app_assoc | reflexivity | discriminate].
+      rewrite (ends_with_last_ne _ 49 s_10 [49;45] 48); [|eapply last_split; change s_01 with ([48;45]++[49]); now rewrite app_assoc | reflexivity | discriminate].
+      now rewrite ends_with_app.
+    + now rewrite ends_with_app.
+  - apply str_eqb_eq in Hres as ->. unfold result_len.
+    assert (Hl : Y ++ s_star = firstn (length (Y ++ s_star) - 1) (Y ++ s_star) ++ [42]) by (eapply last_split; reflexivity).
+    rewrite (ends_with_last_ne _ 42 s_draw [49;47;50;45;49;47] 50 Hl eq_refl) by discriminate.
+    rewrite (ends_with_last_ne _ 42 s_10 [49;45] 48 Hl eq_refl) by discriminate.
+    rewrite (ends_with_last_ne _ 42 s_01 [48;45] 49 Hl eq_refl) by discriminate.
+    now rewrite ends_with_app.
+Qed.
+
+Lemma result_nonempty res : pgn_result_ok res = true -> (0 < length res)%nat /\
+  exists c x, res = c :: x /\ is_space_trim c = false /\ c <> 37 /\ last_nonspace res /\ ~ In 34 res /\ ~ In 59 res.
+Proof.
+  intros Hres. unfold pgn_result_ok in Hres. apply orb_prop in Hres as [Hres|Hres].
+  - apply is_result_cases in Hres. destruct Hres as [->|[->| ->]]; (split; [simpl; lia|]); eexists _, _;
+      (split; [reflexivity|]); (split; [reflexivity|]); (split; [discriminate|]); (split; [|split; simpl; intuition discriminate]).
+    + exists [49;45], 48. auto.
+    + exists [48;45], 49. auto.
+    + exists [49;47;50;45;49;47], 50. auto.
+  - apply str_eqb_eq in Hres as ->. split; [simpl; lia|]. exists 42, []. repeat split; try discriminate.
+    + exists [], 42. auto.
+    + simpl; intuition discriminate.
+    + simpl; intuition discriminate.
+Qed.
+
+Lemma strip_result_app Y res : pgn_result_ok res = true -> strip_result (Y ++ res) = Y.
+Proof.
+  intros H. unfold strip_result. rewrite (result_len_app Y res H), app_length.
+  replace (length Y + length res - length res)%nat with (length Y) by lia.
+  now rewrite firstn_app, firstn_all, Nat.sub_diag, app_nil_r.
+Qed.
+
+Lemma has_result_app Y res : pgn_result_ok res = true -> has_result (Y ++ res) = true.
+Proof.
+  intros H. unfold has_result. rewrite (result_len_app Y res H).
+  destruct (result_nonempty res H) as [Hl _]. destruct (length res); [lia | reflexivity].
+Qed.
+
+Lemma strip_result_id s : has_result s = false -> strip_result s = s.
+Proof.
+  unfold has_result, strip_result. intros H. destruct (result_len s); [|discriminate].
+  now rewrite Nat.sub_0_r, firstn_all.
+Qed.
+
+Lemma strip_semi_id s : ~ In 59 s -> strip_semi s = s.
+Proof.
+  induction s as [|c s IH]; intros H; [reflexivity|]. simpl.
+  destruct (N.eqb_spec c 59) as [->|_]; [exfalso; apply H; now left|].
+  f_equal. apply IH. intros H'; apply H; now right.
+Qed.
+
+Lemma m_tag_needs_quote s n : m_tag s = Some n -> In 34 s.
+Proof.
+  unfold m_tag. destruct s as [|c t]; [discriminate|].
+  destruct (c =? 91); [|discriminate].
+  destruct (span_spec is_word t) as (a & r & -> & Hs & _ & _). rewrite Hs.
+  destruct (length a =? 0)%nat; [discriminate|].
+  destruct (span_spec (N.eqb 32) r) as (a' & r' & -> & Hs' & _ & _). rewrite Hs'.
+  destruct (length a' =? 0)%nat; [discriminate|].
+  destruct r' as [|q t3]; [discriminate|]. destruct (N.eqb_spec q 34) as [->|]; [|discriminate].
+  intros _. right. apply in_or_app. right. apply in_or_app. right. now left.
+Qed.
+
+Lemma tag_pass_id s : ~ In 34 s -> ra m_tag [] 0 s = s.
+Proof.
+  intros H. apply ra_id. intros a1 c a2 ->. rewrite app_nil_r.
+  destruct (m_tag (c :: a2)) eqn:E; [|reflexivity]. exfalso. apply m_tag_needs_quote in E.
+  apply H. apply in_or_app. now right.
+Qed.
+
+(** characters of the rendered words *)
+Lemma word_first_last w : word_ok w = true ->
+  (exists c x, rw w = c :: x /\ is_space_trim c = false /\ c <> 37) /\ last_nonspace (rw w) /\
+  ~ In 34 (rw w) /\ ~ In 59 (rw w).
+Proof.
+  intros Hw.
+  assert (Hq : forall c, In c (rw w) -> c <> 34 /\ c <> 59).
+  { intros c Hc. destruct w as [s|ds nd|ds|body|body| | |n|r]; cbn [word_ok rw] in *; try discriminate.
+    - pose proof (san_ok_no_special s c Hw Hc) as H. unfold special in H. lia.
+    - apply (num_chars ds nd c Hw), digit_not_special in Hc. unfold special in Hc. lia.
+    - destruct Hc as [<-|Hc]; [lia|]. apply (digits_chars ds 3 c Hw) in Hc. unfold is_digit, in_range in Hc. lia.
+    - destruct Hc as [<-|Hc]; [lia|]. apply in_app_or in Hc as [Hc|[<-|[]]]; [|lia].
+      apply (com_body_chars body c Hw) in Hc. lia.
+    - destruct Hc as [<-|Hc]; [lia|]. apply in_app_or in Hc as [Hc|[<-|[]]]; [|lia].
+      apply (ang_body_chars body c Hw) in Hc. lia.
+    - destruct Hc as [<-|[]]. lia.
+    - destruct Hc as [<-|[]]. lia. }
+  split; [|split; [|split; intros H; apply Hq in H; lia]].
+  - destruct w as [s|ds nd|ds|body|body| | |n|r]; cbn [word_ok rw] in *; try discriminate.
+    + destruct (san_ok_chars s Hw) as (Hne & Hch & _). destruct s as [|c s]; [congruence|].
+      exists c, s. split; [reflexivity|]. assert (Hc : san_char c = true) by (simpl in Hch; lia).
+      apply san_char_facts in Hc. tauto.
+    + apply andb_prop in Hw as [Hw _]. apply andb_prop in Hw as [Hw _].
+      destruct (digits_head ds Hw) as (d & ds' & -> & Hd & _). exists d, (ds' ++ repeat 46 nd).
+      split; [reflexivity|]. unfold is_digit, is_space_trim, in_range in *. split; lia.
+    + exists 36, ds. repeat split; discriminate.
+    + exists 123, (body ++ [125]). repeat split; discriminate.
+    + exists 60, (body ++ [62]). repeat split; discriminate.
+    + exists 40, []. repeat split; discriminate.
+    + exists 41, []. repeat split; discriminate.
+  - destruct w as [s|ds nd|ds|body|body| | |n|r]; cbn [word_ok rw] in *; try discriminate.
+    + now apply tokstr_last, san_ok_tokstr.
+    + apply (sword_last_nonspace (WNum ds nd)); [exact Hw | reflexivity].
+    + unfold digits_ok in Hw. destruct ds as [|d ds]; [discriminate|]. apply andb_prop in Hw as [Hw _].
+      destruct (exists_last (l := d :: ds) ltac:(discriminate)) as (a & c & Heq). rewrite Heq in *.
+      exists (36 :: a), c. split; [reflexivity|]. rewrite forallb_app in Hw. simpl in Hw.
+      unfold is_digit, is_space_trim, in_range in *. lia.
+    + exists (123 :: body), 125. auto.
+    + exists (60 :: body), 62. auto.
+    + exists [], 40. auto.
+    + exists [], 41. auto.
+Qed.
+
+Lemma rline_no_quote_semi ws : forallb (fun gw : gword => word_ok (snd gw)) ws = true ->
+  ~ In 34 (rline ws) /\ ~ In 59 (rline ws).
+Proof.
+  induction ws as [|[g w] t IH]; intros H; [simpl; tauto|].
+  cbn [forallb snd] in H. apply andb_prop in H as [Hw Ht]. destruct (IH Ht) as [I1 I2].
+  destruct (word_first_last w Hw) as (_ & _ & Q1 & Q2). rewrite rline_cons.
+  split; intros Hin; (apply in_app_or in Hin as [Hin|Hin]; [destruct g; simpl in Hin; [tauto | destruct Hin as [Hin|[]]; discriminate]|]);
+    apply in_app_or in Hin as [Hin|Hin]; tauto.
+Qed.
+
+Lemma rline_last_nonspace ws : ws <> [] -> forallb (fun gw : gword => word_ok (snd gw)) ws = true ->
+  last_nonspace (rline ws).
+Proof.
+  intros Hne H. destruct (exists_last Hne) as (a & [g w] & ->). rewrite rline_app.
+  apply last_nonspace_app. rewrite rline_cons. apply last_nonspace_app.
+  unfold rline. simpl. rewrite app_nil_r.
+  rewrite forallb_app in H. apply andb_prop in H as [_ H]. cbn [forallb snd] in H.
+  apply andb_prop in H as [H _]. now apply word_first_last.
+Qed.
+
+(** a movetext line *)
+Definition mline_ok (l : list gword) : Prop :=
+  line_ok l = true /\ forallb (fun gw : gword => word_ok (snd gw)) l = true.
+
+Lemma render_line_rline l : line_ok l = true -> rline l = 32 :: render_line l.
+Proof. destruct l as [|[g w] t]; [discriminate|]. simpl. destruct g; [discriminate|]. intros _. now rewrite rline_cons. Qed.
+
+Lemma mline_facts l : mline_ok l ->
+  (exists c x, render_line l = c :: x /\ is_space_trim c = false /\ c <> 37) /\
+  last_nonspace (render_line l) /\ ~ In 34 (render_line l) /\ ~ In 59 (render_line l).
+Proof.
+  intros [Hl Hok]. destruct l as [|[g w] t]; [discriminate|].
+  cbn [forallb snd] in Hok. apply andb_prop in Hok as [Hw Ht].
+  destruct (word_first_last w Hw) as ((c & x & Hrw & Hc & Hc37) & Hlast & Q1 & Q2).
+  destruct (rline_no_quote_semi t Ht) as [R1 R2].
+  unfold render_line, rline0. split; [|split; [|split]].
+  - exists c, (x ++ rline t). rewrite Hrw. auto.
+  - destruct t as [|y t]; [unfold rline; simpl; now rewrite app_nil_r|].
+    apply last_nonspace_app. apply rline_last_nonspace; [discriminate | exact Ht].
+  - intros H. apply in_app_or in H. tauto.
+  - intros H. apply in_app_or in H. tauto.
+Qed.
+
+Lemma clean_generic s c x :
+  s = c :: x -> is_space_trim c = false -> c <> 37 -> last_nonspace s -> ~ In 34 s -> ~ In 59 s ->
+  has_result s = false -> clean_pgn_line s = Some s.
+Proof.
+  intros Hs Hc H37 Hl Hq Hsemi Hres. unfold clean_pgn_line.
+  rewrite (trim_space_id_gen s c x Hs Hc Hl). rewrite Hs at 1.
+  destruct (N.eqb_spec c 37) as [|_]; [congruence|].
+  rewrite (tag_pass_id s Hq), (strip_result_id s Hres), (strip_semi_id s Hsemi).
+  rewrite (trim_space_id_gen s c x Hs Hc Hl). now rewrite Hs.
+Qed.
+
+Lemma clean_mline l : mline_ok l -> has_result (render_line l) = false ->
+  clean_pgn_line (render_line l) = Some (render_line l).
+Proof.
+  intros Hl Hres. destruct (mline_facts l Hl) as ((c & x & Hs & Hc & H37) & Hlast & Hq & Hsemi).
+  eapply clean_generic; eauto.
+Qed.
+
+Lemma trim_space_app_space s c x : s = c :: x -> is_space_trim c = false -> last_nonspace s ->
+  trim_space (s ++ [32]) = s.
+Proof.
+  intros Hs Hc Hl. unfold trim_space. rewrite Hs. cbn [app]. rewrite trim_left_nonspace by exact Hc.
+  rewrite trim_right_tr. change (c :: x ++ [32]) with ((c :: x) ++ [32]). rewrite <- Hs.
+  rewrite tr_app_spaces; [now apply tr_nonspace_end | intros d [<-|[]]; reflexivity].
+Qed.
+
+(** the last line: moves followed by the result *)
+Lemma clean_last_line l res : mline_ok l -> pgn_result_ok res = true ->
+  clean_pgn_line (render_line l ++ 32 :: res) = Some (render_line l).
+Proof.
+  intros Hl Hres. destruct (mline_facts l Hl) as ((c & x & Hs & Hc & H37) & Hlast & Hq & Hsemi).
+  destruct (result_nonempty res Hres) as (_ & c' & x' & Hr & _ & _ & Hrl & Hrq & Hrs).
+  unfold clean_pgn_line.
+  assert (Hfull : last_nonspace (render_line l ++ 32 :: res)).
+  { change (32 :: res) with ([32] ++ res). rewrite app_assoc. now apply last_nonspace_app. }
+  rewrite (trim_space_id_gen _ c (x ++ 32 :: res)); [|now rewrite Hs | exact Hc | exact Hfull].
+  rewrite Hs at 1. cbn [app]. destruct (N.eqb_spec c 37) as [|_]; [congruence|].
+  rewrite tag_pass_id.
+  2:{ intros H. apply in_app_or in H as [H|[H|H]]; [tauto | discriminate | tauto]. }
+  change (32 :: res) with ([32] ++ res). rewrite app_assoc.
+  rewrite (strip_result_app _ res Hres).
+  rewrite strip_semi_id.
+  2:{ intros H. apply in_app_or in H as [H|[H|[]]]; [tauto | discriminate]. }
+  rewrite (trim_space_app_space _ c x Hs Hc Hlast). now rewrite Hs.
+Qed.
+
+Lemma clean_result_only res : pgn_result_ok res = true -> clean_pgn_line res = None.
+Proof.
+  intros Hres. destruct (result_nonempty res Hres) as (_ & c & x & Hr & Hc & H37 & Hrl & Hrq & Hrs).
+  unfold clean_pgn_line. rewrite (trim_space_id_gen res c x Hr Hc Hrl). rewrite Hr at 1.
+  destruct (N.eqb_spec c 37) as [|_]; [congruence|].
+  rewrite (tag_pass_id res Hrq). rewrite <- (app_nil_l res) at 1. rewrite (strip_result_app [] res Hres). reflexivity.
+Qed.
+
+(** tag pair lines *)
+Lemma find_quote_bracket_value v : forallb (fun c => negb (c =? 34) && negb (c =? 10)) v = true ->
+  find_quote_bracket (v ++ [34; 93]) = Some (length v + 2)%nat.
+Proof.
+  induction v as [|c v IH]; intros H; [reflexivity|].
+  cbn [forallb] in H. apply andb_prop in H as [Hc Hv]. cbn [app find_quote_bracket].
+  destruct (N.eqb_spec c 10) as [|_]; [lia|].
+  specialize (IH Hv). destruct (v ++ [34; 93]) as [|b l] eqn:E; [destruct v; discriminate|].
+  destruct (N.eqb_spec c 34) as [|_]; [lia|]. cbn [andb]. rewrite IH. reflexivity.
+Qed.
+
+Lemma clean_tag nv : tag_ok nv = true -> clean_pgn_line (render_tag (fst nv) (snd nv)) = None.
+Proof.
+  destruct nv as [name v]. unfold tag_ok. cbn [fst snd]. intros H. apply andb_prop in H as [Hn Hv].
+  destruct name as [|n0 name]; [discriminate|].
+  unfold clean_pgn_line, render_tag.
+  assert (Htrim : trim_space (91 :: (n0 :: name) ++ 32 :: 34 :: v ++ [34; 93]) = 91 :: (n0 :: name) ++ 32 :: 34 :: v ++ [34; 93]).
+  { eapply trim_space_id_gen; [reflexivity | reflexivity |].
+    exists (91 :: (n0 :: name) ++ 32 :: 34 :: v ++ [34]), 93. split; [|reflexivity].
+    simpl. f_equal. f_equal. rewrite <- !app_assoc. simpl. now rewrite <- app_assoc. }
+  rewrite Htrim. cbn [N.eqb Pos.eqb].
+  set (tag := 91 :: (n0 :: name) ++ 32 :: 34 :: v ++ [34; 93]).
+  assert (Hm : m_tag (tag ++ []) = Some (length tag)).
+  { rewrite app_nil_r. unfold tag, m_tag. cbn [N.eqb Pos.eqb].
+    rewrite span_app; [|exact Hn | right; exists 32, (34 :: v ++ [34;93]); auto].
+    cbn [length Nat.eqb].
+    change (32 :: 34 :: v ++ [34; 93]) with ([32] ++ 34 :: v ++ [34;93]).
+    rewrite span_app; [|reflexivity | right; exists 34, (v ++ [34;93]); auto].
+    cbn [length Nat.eqb N.eqb Pos.eqb]. rewrite (find_quote_bracket_value v Hv).
+    f_equal. simpl. rewrite !app_length. simpl. rewrite app_length. simpl. lia. }
+  unfold tag in Hm at 1. rewrite <- (app_nil_r tag). unfold tag at 1.
+  rewrite (ra_hit m_tag [] 91 ((n0 :: name) ++ 32 :: 34 :: v ++ [34; 93]) [] Hm). reflexivity.
+Qed.
+
+Lemma clean_empty : clean_pgn_line [] = None.
+Proof. reflexivity. Qed.
+
+Lemma tag_no_result nv : tag_ok nv = true -> has_result (trim_space (render_tag (fst nv) (snd nv))) = false.
+Proof.
+  destruct nv as [name v]. cbn [fst snd]. intros _. unfold render_tag.
+  assert (Heq : 91 :: name ++ 32 :: 34 :: v ++ [34; 93] = (91 :: name ++ 32 :: 34 :: v ++ [34]) ++ [93]).
+  { simpl. f_equal. rewrite <- app_assoc. simpl. do 2 f_equal. now rewrite <- app_assoc. }
+  rewrite (trim_space_id_gen _ 91 (name ++ 32 :: 34 :: v ++ [34; 93]) eq_refl eq_refl).
+  - rewrite Heq. apply no_result_last; discriminate.
+  - eexists _, 93. split; [exact Heq | reflexivity].
+Qed.
+
+(** *** slicing *)
+Lemma pgn_slices_app init : forall acc last rest,
+  Forall (fun l => has_result (trim_space l) = false) init -> has_result (trim_space last) = true ->
+  pgn_slices acc (init ++ last :: rest) = (rev acc ++ init ++ [last]) :: pgn_slices [] rest.
+Proof.
+  induction init as [|l init IH]; intros acc last rest Hi Hl.
+  - cbn [app pgn_slices]. rewrite Hl. reflexivity.
+  - cbn [app pgn_slices]. rewrite (Forall_inv Hi). rewrite IH; [|exact (Forall_inv_tail Hi) | exact Hl].
+    cbn [rev]. now rewrite <- app_assoc.
+Qed.
+
+(** *** a rendered PGN game *)
+Record pgame := PGame { pg_tags : list (str * str); pg_lines : list (list gword);
+                        pg_last : list gword; pg_res : str }.
+Definition pg_words (p : pgame) : list gword := concat (pg_lines p) ++ pg_last p.
+Definition pg_render (p : pgame) : list str := render_pgn (pg_tags p) (pg_lines p) (pg_last p) (pg_res p).
+Definition pg_moves (p : pgame) : list str := top_toks 0 (pg_words p).
+
+Record pgame_ok (p : pgame) : Prop := {
+  pgo_tags : Forall (fun nv => tag_ok nv = true) (pg_tags p);
+  pgo_lines : Forall mline_ok (pg_lines p);
+  (* no movetext line other than the last ends with a result marker *)
+  pgo_nores : Forall (fun l => has_result (render_line l) = false) (pg_lines p);
+  pgo_last : pg_last p = [] \/ mline_ok (pg_last p);
+  pgo_res : pgn_result_ok (pg_res p) = true;
+  pgo_glue : glues_ok (WBlank 0) (pg_words p) = true;
+  pgo_bal : bal_words 0 (pg_words p) = true;
+  pgo_start : starts_with_num 0 (pg_words p) = true;
+  pgo_moves : pg_moves p <> []
+}.
+
+Definition fline (l : str) : str := match clean_pgn_line l with Some x => 32 :: x | None => [] end.
+
+Lemma pgn_move_line_app a b : pgn_move_line (a ++ b) = pgn_move_line a ++ pgn_move_line b.
+Proof. unfold pgn_move_line. now rewrite map_app, concat_app. Qed.
+
+Lemma pgn_move_line_tags tags : Forall (fun nv => tag_ok nv = true) tags ->
+  pgn_move_line (map (fun nv : str * str => render_tag (fst nv) (snd nv)) tags) = [].
+Proof.
+  induction 1 as [|nv tags Hnv _ IH]; [reflexivity|].
+  unfold pgn_move_line in *. cbn [map concat]. rewrite (clean_tag nv Hnv). exact IH.
+Qed.
+
+Lemma pgn_move_line_lines lines : Forall mline_ok lines ->
+  Forall (fun l => has_result (render_line l) = false) lines ->
+  pgn_move_line (map render_line lines) = rline (concat lines).
+Proof.
+  induction 1 as [|l lines Hl _ IH]; intros Hr; [reflexivity|].
+  unfold pgn_move_line in *. cbn [map concat]. rewrite (clean_mline l Hl (Forall_inv Hr)).
+  rewrite rline_app. rewrite (IH (Forall_inv_tail Hr)). destruct Hl as [Hl _].
+  now rewrite (render_line_rline l Hl).
+Qed.
+
+Lemma words_ok_all p : pgame_ok p -> forallb (fun gw : gword => word_ok (snd gw)) (pg_words p) = true.
+Proof.
+  intros H. unfold pg_words. rewrite forallb_app. apply andb_true_intro. split.
+  - pose proof (pgo_lines p H) as Hl. induction Hl as [|l ls [_ Hl] _ IH]; [reflexivity|].
+    cbn [concat]. rewrite forallb_app. now rewrite Hl, IH.
+  - destruct (pgo_last p H) as [->|[_ Hl]]; [reflexivity | exact Hl].
+Qed.
+
+(** C19 / PGN reader: a game with tag pairs, comments, NAGs, reserved <..> text and nested
+    variations, spread over lines, is read as exactly its main-line moves *)
+Theorem tokens_pgn_render p : pgame_ok p -> tokens_pgn (pg_render p) = Some (pg_moves p).
+Proof.
+  intros H. unfold tokens_pgn, pg_render, render_pgn.
+  rewrite !pgn_move_line_app.
+  rewrite (pgn_move_line_tags _ (pgo_tags p H)).
+  rewrite (pgn_move_line_lines _ (pgo_lines p H) (pgo_nores p H)).
+  assert (Hlast : pgn_move_line [match pg_last p with [] => pg_res p | _ :: _ => render_line (pg_last p) ++ 32 :: pg_res p end]
+                  = rline (pg_last p)).
+  { unfold pgn_move_line. cbn [map concat]. rewrite app_nil_r.
+    destruct (pgo_last p H) as [E|Hl].
+    - rewrite E. now rewrite (clean_result_only _ (pgo_res p H)).
+    - destruct (pg_last p) as [|gw t] eqn:E; [destruct Hl; discriminate|].
+      rewrite (clean_last_line _ _ Hl (pgo_res p H)). destruct Hl as [Hl _]. now rewrite (render_line_rline _ Hl). }
+  rewrite Hlast. change (pgn_move_line [[]]) with (@nil N). cbn [app].
+  rewrite <- rline_app. fold (pg_words p).
+  apply pgn_clean_words; [now apply words_ok_all | apply (pgo_glue p H) | apply (pgo_bal p H) | apply (pgo_start p H) | apply (pgo_moves p H)].
+Qed.
+
+Lemma mline_trim l : mline_ok l -> trim_space (render_line l) = render_line l.
+Proof.
+  intros Hl. destruct (mline_facts l Hl) as ((c & x & Hs & Hc & _) & Hlast & _).
+  eapply trim_space_id_gen; eauto.
+Qed.
+
+(** processPgn cuts the file into exactly the rendered games *)
+Theorem pgn_slices_render p rest : pgame_ok p ->
+  pgn_slices [] (pg_render p ++ rest) = pg_render p :: pgn_slices [] rest.
+Proof.
+  intros H. unfold pg_render, render_pgn.
+  set (last := match pg_last p with [] => pg_res p | _ :: _ => render_line (pg_last p) ++ 32 :: pg_res p end).
+  set (init := map (fun nv : str * str => render_tag (fst nv) (snd nv)) (pg_tags p) ++ [[]] ++ map render_line (pg_lines p)).
+  replace ((map (fun nv : str * str => render_tag (fst nv) (snd nv)) (pg_tags p) ++ [[]] ++ map render_line (pg_lines p) ++ [last]) ++ rest)
+    with (init ++ last :: rest) by (unfold init; now rewrite <- !app_assoc).
+  replace (map (fun nv : str * str => render_tag (fst nv) (snd nv)) (pg_tags p) ++ [[]] ++ map render_line (pg_lines p) ++ [last])
+    with ([] ++ init ++ [last]) by (unfold init; now rewrite <- !app_assoc).
+  apply (pgn_slices_app init [] last rest).
+  - unfold init. apply Forall_app. split; [|apply Forall_app; split].
+    + apply Forall_forall. intros l Hl. apply in_map_iff in Hl as (nv & <- & Hnv).
+      apply tag_no_result. pose proof (pgo_tags p H) as Ht. rewrite Forall_forall in Ht. auto.
+    + constructor; [reflexivity | constructor].
+    + apply Forall_forall. intros l Hl. apply in_map_iff in Hl as (ml & <- & Hml).
+      pose proof (pgo_lines p H) as H1. pose proof (pgo_nores p H) as H2. rewrite Forall_forall in H1, H2.
+      rewrite (mline_trim ml (H1 ml Hml)). auto.
+  - unfold last. destruct (result_nonempty _ (pgo_res p H)) as (_ & c' & x' & Hr & Hc' & _ & Hrl & _).
+    destruct (pgo_last p H) as [E|Hl].
+    + rewrite E. rewrite (trim_space_id_gen _ c' x' Hr Hc' Hrl).
+      rewrite <- (app_nil_l (pg_res p)). apply has_result_app, (pgo_res p H).
+    + destruct (pg_last p) as [|gw t] eqn:E; [destruct Hl; discriminate|]. rewrite <- E in *.
+      destruct (mline_facts _ Hl) as ((c & x & Hs & Hc & _) & _).
+      rewrite (trim_space_id_gen _ c (x ++ 32 :: pg_res p)); [|now rewrite Hs | exact Hc|].
+      * change (32 :: pg_res p) with ([32] ++ pg_res p). rewrite app_assoc. apply has_result_app, (pgo_res p H).
+      * change (32 :: pg_res p) with ([32] ++ pg_res p). rewrite app_assoc. now apply last_nonspace_app.
+Qed.
+
+(* ========================================================================= *)
+From stdpp Require Import base option fin_maps nmap.
 Local Open Scope N_scope.
 
 (* ========================================================================= *)
@@ -210,16 +2292,16 @@ Qed.
     error branch, and the resulting key set and counters are [spec_counts]: the root plus every key
     reached by a move of some line; counter = number of moves (over all lines, with multiplicity)
     reaching the key, plus for the root the number of lines that passed the line filter. *)
-Theorem book_schedule_independent resolve root (games : list (option (list str))) sched :
-  Interleave (map (game_steps resolve root) games) sched ->
+Theorem schedule_counts_general root (ls : list (list step)) sched :
+  Forall (sched_ok root (fun k => k = root)) ls ->
+  Interleave ls sched ->
   exists b, run root sched (init_book root) = Some b /\
-            forall k, cview b k = spec_counts root (map (game_steps resolve root) games) k.
+            forall k, cview b k = spec_counts root ls k.
 Proof.
-  intros Hil.
+  intros Hls Hil.
   assert (Hok : sched_ok root (fun k => is_Some (init_book root !! k)) sched).
-  { eapply interleave_ok; [exact Hil|]. apply List.Forall_forall. intros l Hl.
-    apply in_map_iff in Hl as (g & <- & _). apply game_steps_ok.
-    unfold init_book. rewrite lookup_singleton. eauto. }
+  { eapply interleave_ok; [exact Hil|]. eapply Forall_impl; [exact Hls|]. intros l Hl.
+    eapply sched_ok_mono; [|exact Hl]. intros k ->. unfold init_book. rewrite lookup_singleton. eauto. }
   destruct (run_counts root sched _ Hok) as (b & Hrun & Hc).
   exists b. split; [exact Hrun|]. intros k.
   rewrite Hc, cview_init. unfold spec_counts.
@@ -227,6 +2309,15 @@ Proof.
   destruct (N.eqb_spec k root); simpl.
   - reflexivity.
   - destruct (occ root k sched =? 0); reflexivity.
+Qed.
+
+Theorem book_schedule_independent resolve root (games : list (option (list str))) sched :
+  Interleave (map (game_steps resolve root) games) sched ->
+  exists b, run root sched (init_book root) = Some b /\
+            forall k, cview b k = spec_counts root (map (game_steps resolve root) games) k.
+Proof.
+  apply schedule_counts_general. apply List.Forall_forall. intros l Hl.
+  apply in_map_iff in Hl as (g & <- & _). now apply game_steps_ok.
 Qed.
 
 (** two schedules of the same lines: same positions, same counters *)
@@ -575,6 +2666,27 @@ Section Legal.
   Qed.
 End Legal.
 
+(** non-vacuity of [book_moves_legal_once]: a one-move book *)
+Definition ex2_resolve (k : N) (t : str) : option (N * N) :=
+  if (k =? 1) && str_eqb t [97] then Some (10, 2) else None.
+Example book_moves_legal_once_ex :
+  exists b e, run 1 [SRoot; SAdd 1 2 10] (init_book 1) = Some b /\ b !! 1 = Some e /\
+    forall mv nk, In (mv, nk) (succs e) -> (mv = 10 /\ 1 = 1) /\ nk = 2 /\ is_Some (b !! nk).
+Proof.
+  assert (Hil : Interleave (map (game_steps ex2_resolve 1) [Some [[97]]]) [SRoot; SAdd 1 2 10])
+    by apply (interleave_concat [[SRoot; SAdd 1 2 10]]).
+  destruct (book_schedule_independent ex2_resolve 1 [Some [[97]]] _ Hil) as (b & Hrun & Hc).
+  assert (H1 : is_Some (b !! 1)).
+  { specialize (Hc 1). unfold cview in Hc. destruct (b !! 1); [eauto | discriminate]. }
+  destruct H1 as [e He]. exists b, e. split; [exact Hrun|]. split; [exact He|].
+  intros mv nk Hin.
+  refine (proj1 (book_moves_legal_once ex2_resolve (fun k mv => mv = 10 /\ k = 1) (fun _ _ => 2) _
+            1 [Some [[97]]] _ b Hil Hrun 1 e He) mv nk Hin).
+  intros k t mv' nk' H. unfold ex2_resolve in H.
+  destruct ((k =? 1) && str_eqb t [97]) eqn:E; [|discriminate]. injection H as <- <-.
+  apply andb_prop in E as [E _]. apply N.eqb_eq in E. auto.
+Qed.
+
 (** ** Which parent offers a transposed position DOES depend on the schedule.
     Two lines a-b and b-a reaching the same position 4 via 2 resp. 3: *)
 Definition ex_resolve (k : N) (t : str) : option (N * N) :=
@@ -632,3 +2744,297 @@ Proof. vm_compute. auto. Qed.
 Example ex_prefix :
   game_steps ex_resolve 1 (Some [[97];[120];[98]]) = [SRoot; SAdd 1 2 10].
 Proof. reflexivity. Qed.
+
+(* ========================================================================= *)
+(** * Part C — whole files, format independence, findings, checker soundness  *)
+(* ========================================================================= *)
+
+(** *** executable well-formedness check of a PGN game *)
+Definition mline_okb (l : list gword) : bool :=
+  line_ok l && forallb (fun gw : gword => word_ok (snd gw)) l.
+Definition pgame_okb (p : pgame) : bool :=
+  forallb tag_ok (pg_tags p) &&
+  forallb mline_okb (pg_lines p) &&
+  forallb (fun l => negb (has_result (render_line l))) (pg_lines p) &&
+  match pg_last p with [] => true | l => mline_okb l end &&
+  pgn_result_ok (pg_res p) &&
+  glues_ok (WBlank 0) (pg_words p) &&
+  bal_words 0 (pg_words p) &&
+  starts_with_num 0 (pg_words p) &&
+  match pg_moves p with [] => false | _ => true end.
+
+Lemma mline_okb_sound l : mline_okb l = true -> mline_ok l.
+Proof. unfold mline_okb, mline_ok. intros H. apply andb_prop in H. exact H. Qed.
+
+Lemma pgame_okb_sound p : pgame_okb p = true -> pgame_ok p.
+Proof.
+  unfold pgame_okb. intros H.
+  apply andb_prop in H as [H H9]. apply andb_prop in H as [H H8]. apply andb_prop in H as [H H7].
+  apply andb_prop in H as [H H6]. apply andb_prop in H as [H H5]. apply andb_prop in H as [H H4].
+  apply andb_prop in H as [H H3]. apply andb_prop in H as [H1 H2].
+  split; try assumption.
+  - apply List.Forall_forall. intros x Hx. rewrite forallb_forall in H1. auto.
+  - apply List.Forall_forall. intros x Hx. apply mline_okb_sound. rewrite forallb_forall in H2. auto.
+  - apply List.Forall_forall. intros x Hx. rewrite forallb_forall in H3. specialize (H3 x Hx).
+    destruct (has_result (render_line x)); [discriminate | reflexivity].
+  - destruct (pg_last p) eqn:E; [now left | right; now apply mline_okb_sound].
+  - destruct (pg_moves p); [discriminate | discriminate].
+Qed.
+
+(** *** whole files *)
+Theorem file_games_simple (gs : list (str * list (bool * str))) :
+  Forall (fun g => uci_ok (fst g) = true /\ Forall (fun su => uci_ok (snd su) = true) (snd g)) gs ->
+  file_games Simple (map (fun g => render_simple (fst g) (snd g)) gs)
+  = map (fun g => Some (fst g :: map snd (snd g))) gs.
+Proof.
+  induction 1 as [|g gs [H1 H2] _ IH]; [reflexivity|]. cbn [map file_games] in *.
+  now rewrite tokens_simple_render, IH.
+Qed.
+
+Theorem file_games_san (gs : list (bool * list str * option str)) :
+  Forall (fun g => snd (fst g) <> [] /\ Forall (fun s => san_ok s = true) (snd (fst g)) /\
+                   match snd g with Some r => is_result r = true | None => True end) gs ->
+  file_games San (map (fun g => render_san (fst (fst g)) (snd (fst g)) (snd g)) gs)
+  = map (fun g => Some (snd (fst g))) gs.
+Proof.
+  induction 1 as [|g gs (H1 & H2 & H3) _ IH]; [reflexivity|]. cbn [map file_games] in *.
+  now rewrite tokens_san_render, IH.
+Qed.
+
+Theorem file_games_pgn (ps : list pgame) :
+  Forall pgame_ok ps ->
+  file_games Pgn (concat (map pg_render ps)) = map (fun p => Some (pg_moves p)) ps.
+Proof.
+  induction 1 as [|p ps Hp _ IH]; [reflexivity|]. cbn [map concat file_games] in *.
+  rewrite (pgn_slices_render p _ Hp). cbn [map]. now rewrite (tokens_pgn_render p Hp), IH.
+Qed.
+
+(** *** format independence of the book *)
+Lemma walk_agree resolve (g : list (str * str)) : forall k,
+  (forall k' m, In m g -> resolve k' (fst m) = resolve k' (snd m)) ->
+  walk resolve k (map fst g) = walk resolve k (map snd g).
+Proof.
+  induction g as [|m g IH]; intros k H; [reflexivity|]. cbn [map walk].
+  rewrite (H k m (or_introl eq_refl)). destruct (resolve k (snd m)) as [[mv nk]|]; [|reflexivity].
+  f_equal. apply IH. intros k' m' Hm'. apply H. now right.
+Qed.
+
+(** C19, format independence.  [games]: every game as the list of its moves, each move given in
+    coordinate form (fst) and in SAN (snd).  If the files in two formats are read as these games
+    (which [file_games_simple], [file_games_san], [file_games_pgn] establish for rendered files)
+    and coordinate and SAN form of a move resolve alike (C17: GetMoveFromUci/GetMoveFromSan find
+    the same legal move), then whatever the goroutine schedules of the two builds, both books have
+    the same positions with the same counters. *)
+Theorem formats_agree resolve root (games : list (list (str * str))) f1 file1 f2 file2 sched1 sched2 :
+  (forall g k m, In g games -> In m g -> resolve k (fst m) = resolve k (snd m)) ->
+  (file_games f1 file1 = map (fun g => Some (map fst g)) games \/
+   file_games f1 file1 = map (fun g => Some (map snd g)) games) ->
+  (file_games f2 file2 = map (fun g => Some (map fst g)) games \/
+   file_games f2 file2 = map (fun g => Some (map snd g)) games) ->
+  Interleave (map (game_steps resolve root) (file_games f1 file1)) sched1 ->
+  Interleave (map (game_steps resolve root) (file_games f2 file2)) sched2 ->
+  exists b1 b2, run root sched1 (init_book root) = Some b1 /\
+                run root sched2 (init_book root) = Some b2 /\
+                (forall k, is_Some (b1 !! k) <-> is_Some (b2 !! k)) /\
+                (forall k, cview b1 k = cview b2 k).
+Proof.
+  intros Hres H1 H2 I1 I2.
+  assert (Hsteps : forall f file,
+     (file_games f file = map (fun g => Some (map fst g)) games \/
+      file_games f file = map (fun g => Some (map snd g)) games) ->
+     map (game_steps resolve root) (file_games f file)
+     = map (game_steps resolve root) (map (fun g => Some (map snd g)) games)).
+  { intros f file [->| ->]; [|reflexivity]. rewrite !map_map. apply map_ext_in. intros g Hg.
+    cbn [game_steps]. f_equal. apply walk_agree. intros k' m Hm. now apply (Hres g). }
+  rewrite (Hsteps f1 file1 H1) in I1. rewrite (Hsteps f2 file2 H2) in I2.
+  exact (book_positions_counts_schedule_free resolve root _ sched1 sched2 I1 I2).
+Qed.
+
+(** *** non-vacuity: one concrete game in the three formats (the same text was fed to the real
+    engine: 8 positions in each format, equal counters) *)
+Definition ex_pgame : pgame :=
+  PGame [([69;118;101;110;116], [69;120;97;109;112;108;101;59;32;119;105;116;104;32;40;112;97;114;101;110;41;32;97;110;100;32;123;98;114;97;99;101;125]); ([82;101;115;117;108;116], [49;45;48])]
+    [[(false, WCom [115;116;97;114;116]);
+      (false, WNum [49] 1);
+      (true, WTok [101;52]);
+      (false, WNag [49]);
+      (false, WCom [98;101;115;116;32;98;121;32;116;101;115;116;32;91;37;99;108;107;32;48;58;48;53;58;48;48;93]);
+      (false, WTok [101;53]);
+      (false, WOpen);
+      (true, WNum [49] 3);
+      (false, WTok [99;53]);
+      (false, WNum [50] 1);
+      (false, WTok [78;102;51]);
+      (false, WOpen);
+      (true, WNum [50] 1);
+      (false, WTok [99;51]);
+      (false, WTok [100;53]);
+      (true, WClose);
+      (false, WNum [50] 3);
+      (false, WTok [100;54]);
+      (true, WClose)];
+     [(false, WNum [50] 1);
+      (false, WTok [78;102;51]);
+      (false, WAng [114;101;115;101;114;118;101;100]);
+      (false, WTok [78;99;54]);
+      (false, WNum [51] 1);
+      (false, WTok [66;98;53]);
+      (false, WNag [49;52]);
+      (false, WTok [97;54])]]
+    [(false, WNum [52] 1);
+     (false, WTok [66;97;52]);
+     (false, WCom [114;101;116;114;101;97;116])]
+    s_10.
+Definition ex_moves_san : list str := [[101;52];[101;53];[78;102;51];[78;99;54];[66;98;53];[97;54];[66;97;52]].
+Definition ex_moves_uci : list str := [[101;50;101;52];[101;55;101;53];[103;49;102;51];[98;56;99;54];[102;49;98;53];[97;55;97;54];[98;53;97;52]].
+Definition ex_pgn_lines : list str := [[91;69;118;101;110;116;32;34;69;120;97;109;112;108;101;59;32;119;105;116;104;32;40;112;97;114;101;110;41;32;97;110;100;32;123;98;114;97;99;101;125;34;93];[91;82;101;115;117;108;116;32;34;49;45;48;34;93];[];[123;115;116;97;114;116;125;32;49;46;101;52;32;36;49;32;123;98;101;115;116;32;98;121;32;116;101;115;116;32;91;37;99;108;107;32;48;58;48;53;58;48;48;93;125;32;101;53;32;40;49;46;46;46;32;99;53;32;50;46;32;78;102;51;32;40;50;46;32;99;51;32;100;53;41;32;50;46;46;46;32;100;54;41];[50;46;32;78;102;51;32;60;114;101;115;101;114;118;101;100;62;32;78;99;54;32;51;46;32;66;98;53;32;36;49;52;32;97;54];[52;46;32;66;97;52;32;123;114;101;116;114;101;97;116;125;32;49;45;48]].
+
+Example ex_pgame_is_ok : pgame_ok ex_pgame.
+Proof. apply pgame_okb_sound. vm_compute. reflexivity. Qed.
+
+Example ex_pgame_text : pg_render ex_pgame = ex_pgn_lines /\ pg_moves ex_pgame = ex_moves_san.
+Proof. split; vm_compute; reflexivity. Qed.
+
+Example ex_three_formats :
+  (* PGN, by the theorem and by computation *)
+  tokens_pgn ex_pgn_lines = Some ex_moves_san /\
+  (* Simple: e2e4e7e5 g1f3 b8c6f1b5 a7a6 b5a4 *)
+  render_simple [101;50;101;52] [(false,[101;55;101;53]);(true,[103;49;102;51]);(true,[98;56;99;54]);(false,[102;49;98;53]);(true,[97;55;97;54]);(true,[98;53;97;52])]
+    = [101;50;101;52;101;55;101;53;32;103;49;102;51;32;98;56;99;54;102;49;98;53;32;97;55;97;54;32;98;53;97;52] /\
+  tokens_simple [101;50;101;52;101;55;101;53;32;103;49;102;51;32;98;56;99;54;102;49;98;53;32;97;55;97;54;32;98;53;97;52] = Some ex_moves_uci /\
+  (* SAN: 1.e4 e5 2.Nf3 Nc6 3.Bb5 a6 4.Ba4 1-0 *)
+  render_san true ex_moves_san (Some s_10)
+    = [49;46;101;52;32;101;53;32;50;46;78;102;51;32;78;99;54;32;51;46;66;98;53;32;97;54;32;52;46;66;97;52;32;49;45;48] /\
+  tokens_san (render_san true ex_moves_san (Some s_10)) = Some ex_moves_san.
+Proof.
+  destruct ex_pgame_text as [<- <-]. split; [exact (tokens_pgn_render ex_pgame ex_pgame_is_ok)|].
+  repeat split; vm_compute; reflexivity.
+Qed.
+
+(** *** Findings: texts outside the grammar on which the readers disagree (each reproduced on the
+    real engine; see the report).  The reference game is 1.e4 e5 2.Nf3 Nc6. *)
+Definition ref_san : list str := [[101;52];[101;53];[78;102;51];[78;99;54]].
+
+(* a semicolon inside a brace comment cuts the line there (";.*$" runs before "{[^{}]*}"):
+   1. e4 {a; b} e5 2. Nf3 Nc6 1-0   is read as  e4, "{a"  *)
+Example finding_semicolon_in_comment :
+  tokens_pgn [[49;46;32;101;52;32;123;97;59;32;98;125;32;101;53;32;50;46;32;78;102;51;32;78;99;54;32;49;45;48]]
+  = Some [[101;52];[123;97]].
+Proof. vm_compute. reflexivity. Qed.
+
+(* a rest-of-line comment that ends with a result marker ends the game for processPgn; the rest
+   of the game is then read as a NEW game from the start position:
+   1. e4 e5 ; heading for 1-0 / 2. Nf3 Nc6 1-0  gives two games  [e4,e5] and [Nf3,Nc6] *)
+Example finding_result_in_line_comment :
+  file_games Pgn [[49;46;32;101;52;32;101;53;32;59;32;104;101;97;100;105;110;103;32;102;111;114;32;49;45;48];
+                  [50;46;32;78;102;51;32;78;99;54;32;49;45;48]]
+  = [Some [[101;52];[101;53]]; Some [[78;102;51];[78;99;54]]].
+Proof. vm_compute. reflexivity. Qed.
+
+(* castling written with zeros is deleted by the result pattern (1/2|1|0)-(1/2|1|0):
+   1. e4 e5 2. 0-0 Nf3  is read as e4 e5 Nf3 *)
+Example finding_zero_castling :
+  tokens_san [49;46;32;101;52;32;101;53;32;50;46;32;48;45;48;32;78;102;51] = Some [[101;52];[101;53];[78;102;51]].
+Proof. vm_compute. reflexivity. Qed.
+
+(* Simple format: text that is not a coordinate move is invisible, the line goes on behind it;
+   SAN/PGN stop at the unreadable token:  e2e4 zz e7e5  vs  1. e4 zz e5 *)
+Example finding_simple_skips_unreadable :
+  tokens_simple [101;50;101;52;32;122;122;32;101;55;101;53] = Some [[101;50;101;52];[101;55;101;53]] /\
+  tokens_san [49;46;32;101;52;32;122;122;32;101;53] = Some [[101;52];[122;122];[101;53]].
+Proof. split; vm_compute; reflexivity. Qed.
+
+(* a fully disambiguated SAN move contains a coordinate pair and is therefore routed to the UCI
+   parser (openingbook.go:561), which since it matches whole strings rejects it:
+   1. e4 e5 2. Ng1f3 Nb8c6  contributes e4 e5 only (real engine: 3 positions instead of 5) *)
+Example finding_overspecified_san_routed_to_uci :
+  uci_pattern_in [78;103;49;102;51] = true /\ san_ok [78;103;49;102;51] = true /\
+  uci_pattern_in [78;102;51] = false.
+Proof. repeat split; vm_compute; reflexivity. Qed.
+
+(* the root counter counts lines that pass the line filter, and the filters differ:
+   SAN "1." is a line (root counter + 1, token list [""]), Simple "hello" is not *)
+Example finding_root_counter_filters :
+  tokens_san [49;46] = Some [[]] /\ tokens_simple [104;101;108;108;111] = None.
+Proof. split; vm_compute; reflexivity. Qed.
+
+(** *** soundness of the checker used in the correspondence run *)
+Lemma chained_ok root g : forall k (D : N -> Prop), D k -> chained k g = true ->
+  sched_ok root D (map to_step g).
+Proof.
+  induction g as [|[[c n] m] g IH]; intros k D Hk Hc; [exact I|].
+  cbn [chained] in Hc. apply andb_prop in Hc as [H1 H2]. apply N.eqb_eq in H1 as ->.
+  cbn [map to_step sched_ok]. split; [exact Hk|]. apply (IH n); [now right | exact H2].
+Qed.
+
+Lemma occ_pos root k l : occ root k l <> 0 -> k = root \/ exists c m, In (SAdd c k m) l.
+Proof.
+  induction l as [|s l IH]; intros H; [simpl in H; congruence|]. cbn [occ] in H.
+  destruct s as [|c n m]; cbn [hits] in H.
+  - destruct (N.eqb_spec k root); [now left|]. destruct IH as [?|(c & m & Hin)]; [lia | auto | right; exists c, m; now right].
+  - destruct (N.eqb_spec k n) as [->|Hne]; [right; exists c, m; now left|].
+    destruct IH as [?|(c' & m' & Hin)]; [lia | auto | right; exists c', m'; now right].
+Qed.
+
+Lemma existsb_eqb_In k l : existsb (N.eqb k) l = true -> In k l.
+Proof. intros H. apply existsb_exists in H as (x & Hx & E). apply N.eqb_eq in E. now subst. Qed.
+
+(** if the checker accepts, then for EVERY schedule of the observed games the model book has
+    exactly the observed keys with exactly the observed counters *)
+Theorem book_case_ok_sound root games observed sched :
+  book_case_ok root games observed = true ->
+  Interleave (map game_of games) sched ->
+  exists b, run root sched (init_book root) = Some b /\
+            (forall e, In e observed -> cview b (okey e) = Some (snd (fst e))) /\
+            (forall k, is_Some (b !! k) -> In k (map okey observed)).
+Proof.
+  unfold book_case_ok. intros H Hil.
+  apply andb_prop in H as [H _]. apply andb_prop in H as [H _]. apply andb_prop in H as [H _].
+  apply andb_prop in H as [H _]. apply andb_prop in H as [H _]. apply andb_prop in H as [H Hsteps].
+  apply andb_prop in H as [H Hroot]. apply andb_prop in H as [H Hcnt]. apply andb_prop in H as [Hch Hnd].
+  assert (Hok : Forall (sched_ok root (fun k => k = root)) (map game_of games)).
+  { apply List.Forall_forall. intros l Hl. apply in_map_iff in Hl as (g & <- & Hg).
+    rewrite forallb_forall in Hch. unfold game_of. cbn [sched_ok]. split; [reflexivity|].
+    apply (chained_ok root g root); [reflexivity | auto]. }
+  destruct (schedule_counts_general root _ sched Hok Hil) as (b & Hrun & Hc).
+  exists b. split; [exact Hrun|]. split.
+  - intros e He. rewrite Hc. rewrite forallb_forall in Hcnt. specialize (Hcnt e He).
+    destruct (spec_counts root (map game_of games) (okey e)) as [n|]; [|discriminate].
+    apply N.eqb_eq in Hcnt. now subst.
+  - intros k [e Hk]. assert (Hcv : cview b k = Some (cnt e)) by (unfold cview; now rewrite Hk).
+    rewrite Hc in Hcv. unfold spec_counts in Hcv.
+    destruct (N.eqb_spec k root) as [->|Hne]; cbn [orb] in Hcv.
+    + now apply existsb_eqb_In.
+    + destruct (occ root k (concat (map game_of games)) =? 0) eqn:E; [discriminate|].
+      apply N.eqb_neq in E. destruct (occ_pos _ _ _ E) as [?|(c & m & Hin)]; [congruence|].
+      apply in_concat in Hin as (l & Hl & Hin). apply in_map_iff in Hl as (g & <- & Hg).
+      unfold game_of in Hin. destruct Hin as [Hin|Hin]; [discriminate|].
+      apply in_map_iff in Hin as ([[c' n'] m'] & Heq & Hin'). injection Heq as -> -> ->.
+      rewrite forallb_forall in Hsteps.
+      assert (Hin2 : In (c, k, m) (concat games)) by (apply in_concat; eauto).
+      specialize (Hsteps _ Hin2). cbn [fst snd] in Hsteps. now apply existsb_eqb_In.
+Qed.
+
+(** the checker is not trivially true: a wrong counter is rejected *)
+Example book_case_ok_rejects :
+  book_case_ok 1 [[(1,2,10);(2,4,12)];[(1,3,11);(3,4,13)]] [(1,2,[(10,2);(11,3)]);(2,1,[(12,4)]);(3,1,[]);(4,2,[])] = true /\
+  book_case_ok 1 [[(1,2,10);(2,4,12)];[(1,3,11);(3,4,13)]] [(1,2,[(10,2);(11,3)]);(2,1,[(12,4)]);(3,1,[]);(4,1,[])] = false /\
+  book_case_ok 1 [[(1,2,10);(2,4,12)];[(1,3,11);(3,4,13)]] [(1,2,[(10,2);(11,3)]);(2,1,[(12,4)]);(3,1,[(13,4)]);(4,2,[])] = false.
+Proof. repeat split; vm_compute; reflexivity. Qed.
+
+(* ========================================================================= *)
+(** * Assumptions *)
+Print Assumptions tokens_simple_render.
+Print Assumptions tokens_san_render.
+Print Assumptions rav_loop_fuel_enough.
+Print Assumptions tokens_pgn_render.
+Print Assumptions pgn_slices_render.
+Print Assumptions file_games_pgn.
+Print Assumptions book_schedule_independent.
+Print Assumptions book_positions_counts_schedule_free.
+Print Assumptions parallel_equals_sequential.
+Print Assumptions prefix_only.
+Print Assumptions book_edges_sound.
+Print Assumptions book_moves_legal_once.
+Print Assumptions formats_agree.
+Print Assumptions book_case_ok_sound.
